@@ -5,17 +5,22 @@ import ast
 import re
 
 from ..core import Ctx
-from ..match import arg, call_name, calls, fact_of, facts_at, local_defs, mentions, rchain, resolve, single_def, stores
-from ..model import AnalysisError, ClassInfo, FuncInfo, ancestors, chain, const_value, enclosing_stmt, norm, parent, strip_cast, walk_no_nested
+from ..match import Fact, _atoms_with_polarity, arg, call_name, calls, fact_of, facts_at, local_defs, rchain, resolve, single_def, stores
+from ..model import AnalysisError, ClassInfo, FuncInfo, chain, const_value, enclosing_stmt, norm, parent, strip_cast, walk_no_nested
 
 LEVEL = "other"
 EXPLANATION = (
     "The application's half of durability: in every insert_* of IdentityDatabase and AttestationsDB each normal path from "
-    "the INSERT to the return passes self.commit(); no `with <database>:` block (which defers commits) exists anywhere, "
+    "the INSERT to the return passes self.commit() (the statement, its bindings and the commit are followed into the helpers of "
+    "the same object, with the helper's parameters bound to the call's arguments and class/module level tables folded), and a "
+    "failing commit is never turned into a normal return (neither by an insert nor by Database.commit); no `with <database>:` "
+    "block (which defers commits) exists anywhere, "
     "so commit() reaches connection.commit(); _pending_commits is touched only by the deferral mechanism, __exit__ always "
     "resets it and __enter__ never lowers it (a nested block keeps the commits its enclosing block deferred); the journal "
-    "settings are tracked through _initial_statements (file databases end in WAL and synchronous NORMAL, the temporary "
-    "DELETE mode is always followed by WAL) and no other code issues journal/synchronous pragmas; schemas are "
+    "settings are tracked through _initial_statements path by path (every normal path of a file database ends in WAL and "
+    "synchronous NORMAL, the temporary DELETE mode is always followed by WAL) and no other code issues journal/synchronous "
+    "pragmas; the database layer never deletes, renames, truncates or overwrites files (the -wal / -journal side files hold "
+    "what a reopen after a kill needs); schemas are "
     "CREATE TABLE IF NOT EXISTS, keyed inserts are INSERT OR IGNORE, check_database commits, and the column order of "
     "INSERT / SELECT agrees with to_database_tuple / from_database_tuple (each column is bound to the field / key of "
     "the same name, whatever the locals are called) so a reopened database rebuilds the same objects, and the pseudonym "
@@ -25,34 +30,6 @@ EXPLANATION = (
 DB = "ipv8/database.py"
 IDB = "ipv8/attestation/identity/database.py"
 WDB = "ipv8/attestation/wallet/database.py"
-
-
-def _str_of(fi: FuncInfo, e: ast.AST | None, depth: int = 0) -> str | None:
-    """Text of a statement expression: literal, f-string ({} for the holes), `a + b`, `fmt % x`, `fmt.format(..)`,
-    also when it reaches the call through single-assignment locals.  None when it is not a string we can read."""
-    if e is None or depth > 6:
-        return None
-    e = resolve(fi, e)
-    if isinstance(e, ast.Constant) and isinstance(e.value, str):
-        return e.value
-    if isinstance(e, ast.JoinedStr):
-        return "".join(v.value if isinstance(v, ast.Constant) and isinstance(v.value, str) else "{}" for v in e.values)
-    if isinstance(e, ast.BinOp) and isinstance(e.op, ast.Add):
-        l, r = _str_of(fi, e.left, depth + 1), _str_of(fi, e.right, depth + 1)
-        return None if l is None or r is None else l + r
-    if isinstance(e, ast.BinOp) and isinstance(e.op, ast.Mod):
-        return _str_of(fi, e.left, depth + 1)
-    if isinstance(e, ast.Call) and isinstance(e.func, ast.Attribute) and e.func.attr == "format":
-        return _str_of(fi, e.func.value, depth + 1)
-    return None
-
-
-def _sql_of(call: ast.Call, fi: FuncInfo) -> str:
-    a = arg(call, 0, "statement")
-    if a is None:
-        return ""
-    s = _str_of(fi, a)
-    return s if s is not None else norm(a)
 
 
 def _stored_values(fi: FuncInfo, attr_chain: str) -> list[tuple[ast.stmt, ast.AST | None]]:
@@ -86,7 +63,720 @@ def _is_int(e: ast.AST | None, fi: FuncInfo | None = None):
     if fi is not None:
         e = resolve(fi, e)
     v = const_value(e)
+    if not isinstance(v, (int, str, bytes, tuple, type(None))) and fi is not None and _G["repo"] is not None:
+        v = _ev(_Frame(_G["repo"], fi), e)          # a class / module level constant
     return v if isinstance(v, int) and not isinstance(v, bool) else None
+
+
+_G: dict = {"repo": None}          # the repository of the running check, for the helpers that keep their reviewed (fi, ...) signature
+
+
+# ------------------------------------------------------------------------------------------------------------------
+# Frames: a function analysed with (some of) its parameters bound to the argument expressions of one call site, so that
+# a statement / bindings / guard that moved into a helper is read exactly as if it still stood in the caller.
+
+class _Unknown:
+    def __repr__(self) -> str:
+        return "<unknown>"
+
+
+_UNK = _Unknown()
+_FALL = _Unknown()          # a statement block that ends without returning
+_MAX_FRAMES = 4
+
+
+class _Frame:
+    __slots__ = ("repo", "fi", "module", "cls", "binds", "vals", "caller", "call", "ctx", "live", "cond", "alts")
+
+    def __init__(self, repo, fi: FuncInfo | None = None, *, module=None, cls=None, binds=None, vals=None, caller=None, call=None, ctx=None) -> None:
+        self.repo = repo
+        self.ctx = ctx if ctx is not None else (caller.ctx if caller is not None else None)
+        self.live = None                      # CFG nodes that the bindings of this frame do not rule out (computed on demand)
+        self.cond: tuple = ()                 # (test, outcome, frame of the test): holds when this frame's function was the one picked by its call
+        self.alts: dict = {}                  # (call, target) -> cond, for calls of this frame whose callee is picked by a condition
+        self.fi = fi
+        self.module = module if module is not None else (fi.module if fi is not None else None)
+        self.cls = cls if cls is not None else (fi.cls if fi is not None else None)
+        self.binds: dict[str, tuple[ast.AST, _Frame]] = binds if binds is not None else {}
+        self.vals: dict[str, object] = vals if vals is not None else {}
+        self.caller = caller
+        self.call = call
+
+    def with_vals(self, extra: dict) -> "_Frame":
+        return _Frame(self.repo, self.fi, module=self.module, cls=self.cls, binds=self.binds, vals={**self.vals, **extra},
+                      caller=self.caller, call=self.call, ctx=self.ctx)
+
+    def depth(self) -> int:
+        n, f = 0, self
+        while f.caller is not None:
+            n, f = n + 1, f.caller
+        return n
+
+    def outermost(self) -> "_Frame":
+        f = self
+        while f.caller is not None:
+            f = f.caller
+        return f
+
+    def chain_calls(self) -> list[tuple["_Frame", ast.Call]]:
+        """[(frame, call made in that frame)] from the outermost function down to this frame"""
+        out, f = [], self
+        while f.caller is not None:
+            out.append((f.caller, f.call))
+            f = f.caller
+        return list(reversed(out))
+
+
+def _top(ctx: Ctx, fi: FuncInfo) -> _Frame:
+    return _Frame(ctx.repo, fi, ctx=ctx)
+
+
+def _bind_call(frame: _Frame, call: ast.Call, target: FuncInfo) -> _Frame:
+    """frame of `target` for this call: positional / keyword / *rest / default parameters bound to the caller's expressions"""
+    a = target.node.args
+    pos = [p.arg for p in a.posonlyargs + a.args]
+    binds: dict[str, tuple[ast.AST, _Frame]] = {}
+    decs = target.decorator_names()
+    cls = target.cls
+    if target.cls is not None and "staticmethod" not in decs and pos and isinstance(call.func, ast.Attribute):
+        binds[pos[0]] = (call.func.value, frame)
+        rb, _ = _deref(frame, call.func.value)
+        if isinstance(rb, ast.Name) and rb.id in ("self", "cls") and frame.cls is not None:
+            cls = frame.cls                        # the dynamic class of `self` stays the one the analysis started from
+        pos = pos[1:]
+    args = list(call.args)
+    i = 0
+    while i < len(args) and i < len(pos) and not isinstance(args[i], ast.Starred):
+        binds[pos[i]] = (args[i], frame)
+        i += 1
+    rest = args[i:]
+    if a.vararg is not None and (not rest or i >= len(pos)):
+        binds[a.vararg.arg] = (ast.Tuple(elts=rest, ctx=ast.Load()), frame)
+    names = set(pos) | {p.arg for p in a.kwonlyargs}
+    for k in call.keywords:
+        if k.arg is not None and k.arg in names:
+            binds[k.arg] = (k.value, frame)
+    dframe = _Frame(frame.repo, module=target.module, cls=target.cls)
+    allpos = a.posonlyargs + a.args
+    for p, d in zip(allpos[len(allpos) - len(a.defaults):], a.defaults):
+        if p.arg not in binds and not any(isinstance(x, ast.Starred) for x in args) and not any(k.arg is None for k in call.keywords):
+            binds[p.arg] = (d, dframe)
+    for p, d in zip(a.kwonlyargs, a.kw_defaults):
+        if d is not None and p.arg not in binds and not any(k.arg is None for k in call.keywords):
+            binds[p.arg] = (d, dframe)
+    sub = _Frame(frame.repo, target, cls=cls, binds=binds, caller=frame, call=call)
+    sub.cond = frame.alts.get((id(call), target), ())
+    return sub
+
+
+def _def_of(frame: _Frame, name: ast.Name):
+    """(value, tuple index) of the one assignment that gives the local its value at this use: the only assignment of the function, or
+    - when branches of a merged function assign the same name - the only one that reaches the use (dead branches of the frame excluded)"""
+    fi = frame.fi
+    d = single_def(fi, name.id)
+    if d is not None or frame.ctx is None or name.id in fi.params():
+        return d
+    defs = local_defs(fi, name.id)
+    if len(defs) < 2:
+        return None
+    cfg = frame.ctx.cfg(fi)
+    use = cfg.nodes_for(name)
+    if not use:
+        return None
+    live = [x for x in defs if _live(frame, x[0])]
+    reaching = []
+    for st, v, idx in live:
+        others = [n for st2, _, _ in live if st2 is not st for n in cfg.nodes_for(st2)]
+        r = cfg.reach([x for n in cfg.nodes_for(st) for x, lab in n.succ if lab != "exc"], cut_nodes=others, follow_exc=False)
+        if any(u in r for u in use):
+            reaching.append((v, idx))
+    if len(reaching) == 1 and reaching[0][0] is not None:
+        return reaching[0]
+    return None
+
+
+def _deref(frame: _Frame, e: ast.AST, depth: int = 10) -> tuple[ast.AST, _Frame]:
+    """follow single-assignment locals and bound parameters (into the caller) until something else than a name is reached"""
+    e = strip_cast(e)
+    while depth > 0 and isinstance(e, ast.Name) and frame.fi is not None and e.id not in frame.vals:
+        depth -= 1
+        fi = frame.fi
+        if e.id in fi.params():
+            if e.id in frame.binds and not local_defs(fi, e.id):
+                e, frame = frame.binds[e.id]
+                e = strip_cast(e)
+                continue
+            break
+        d = _def_of(frame, e)
+        if d is None:
+            break
+        if d[1] is not None:
+            # `a, b = <tuple>`: element of a tuple literal / of the *rest arguments of the call this frame stands for / of the tuple a helper returns
+            v, fr = _deref(frame, d[0], depth)
+            if isinstance(v, ast.Call):
+                r = _returned_expr(fr, v)
+                if r is not None:
+                    v, fr = _deref(r[1], r[0], depth)
+            if isinstance(v, (ast.Tuple, ast.List)) and not any(isinstance(x, ast.Starred) for x in v.elts) and d[1] < len(v.elts) \
+                    and not any(isinstance(t, ast.Starred) for t in _unpack_targets(fi, e.id)):
+                e, frame = strip_cast(v.elts[d[1]]), fr
+                continue
+            break
+        e = strip_cast(d[0])
+    if depth > 0 and isinstance(e, ast.Call) and frame.fi is not None:
+        r = _returned_expr(frame, e)              # `row = self._row_of(key, token)`: what the helper returns, in the helper's frame
+        if r is not None:
+            return _deref(r[1], r[0], depth - 1)
+    return e, frame
+
+
+def _returned_expr(frame: _Frame, call: ast.Call) -> tuple[ast.AST, _Frame] | None:
+    """(expression, frame) a pure helper of the same object returns for this call: it has one return that the bindings do not rule out and
+    nothing but plain local assignments (and logging) before it"""
+    if frame.depth() >= _MAX_FRAMES or call_name(call) in _EXEC or call_name(call) == "commit":
+        return None
+    h = _self_target(frame, call)
+    if h is None or h.is_async or any(isinstance(x, (ast.Yield, ast.YieldFrom)) for x in walk_no_nested(h.node)):
+        return None
+    sub = _bind_call(frame, call, h)
+    rets = [r for r in walk_no_nested(h.node) if isinstance(r, ast.Return) and r.value is not None and _live(sub, r)]
+    if len(rets) != 1:
+        return None
+    for st in walk_no_nested(h.node):
+        if isinstance(st, ast.stmt) and st is not h.node and not isinstance(st, (ast.Return, ast.Assign, ast.AnnAssign, ast.If, ast.Pass)) \
+                and not (isinstance(st, ast.Expr) and (isinstance(st.value, ast.Constant) or "logger" in (chain(getattr(st.value, "func", st.value)) or ""))):
+            return None
+    return rets[0].value, sub
+
+
+def _unpack_targets(fi: FuncInfo, name: str) -> list:
+    for st, _, idx in local_defs(fi, name):
+        if idx is not None and isinstance(st, ast.Assign):
+            for t in st.targets:
+                if isinstance(t, (ast.Tuple, ast.List)):
+                    return list(t.elts)
+    return []
+
+
+def _is_self(frame: _Frame, e: ast.AST | None) -> bool:
+    """e denotes the object the outermost method was called on"""
+    if e is None:
+        return False
+    b, fr = _deref(frame, e)
+    return isinstance(b, ast.Name) and b.id == "self" and fr.fi is not None and fr.fi.cls is not None and "self" not in fr.binds
+
+
+def _self_target(frame: _Frame, call: ast.Call) -> FuncInfo | None:
+    """the method a call `self.m(...)` (or `m(self, ...)` of a module function that is handed self) runs"""
+    f = call.func
+    if isinstance(f, ast.Name) and frame.fi is not None and (local_defs(frame.fi, f.id) or f.id in frame.binds):
+        f2, fr2 = _deref(frame, f)                 # `step = self._commit_now` ... `step()`
+        if isinstance(f2, ast.Attribute) and _is_self(fr2, f2.value):
+            c = frame.cls or (frame.fi.cls if frame.fi is not None else None)
+            return c.lookup(f2.attr) if c is not None else None
+    if isinstance(f, ast.Attribute) and _is_self(frame, f.value):
+        c = frame.cls or (frame.fi.cls if frame.fi is not None else None)
+        return c.lookup(f.attr) if c is not None else None
+    if isinstance(f, ast.Name) and frame.module is not None and any(_is_self(frame, x) for x in call.args if not isinstance(x, ast.Starred)):
+        r = frame.repo.resolve_name(frame.module, f.id)
+        return r if isinstance(r, FuncInfo) else None
+    return None
+
+
+def _picked_targets(frame: _Frame, call: ast.Call) -> list[tuple[FuncInfo, tuple]]:
+    """`(self.a if test else self.b)(...)` (also through a local): both methods, each with the outcome of the test under which it runs"""
+    f, fr = _deref(frame, call.func)
+    if not isinstance(f, ast.IfExp) or frame.fi is None:
+        return []
+    c = frame.cls or frame.fi.cls
+    out = []
+    for branch, pol in ((f.body, True), (f.orelse, False)):
+        b, bfr = _deref(fr, branch)
+        if not (isinstance(b, ast.Attribute) and _is_self(bfr, b.value)) or c is None or c.lookup(b.attr) is None:
+            return []
+        out.append((c.lookup(b.attr), ((f.test, pol, fr),)))
+    return out
+
+
+def _instance_overrides(c: ClassInfo, attr: str) -> bool:
+    return any(stores(m, "self." + attr) for k in c.mro() for m in k.methods.values())
+
+
+def _ev(frame: _Frame, e: ast.AST | None, depth: int = 0):  # noqa: C901, PLR0911, PLR0912
+    """Value of a constant-foldable expression (str / int / bool / None / tuple / dict of such), else _UNK.  Names are followed through
+    single-assignment locals, bound parameters, module constants and class-level tables; tiny pure helpers are evaluated."""
+    if e is None or depth > 14:
+        return _UNK
+    e = strip_cast(e)
+    repo = frame.repo
+    if isinstance(e, ast.Constant):
+        return e.value if isinstance(e.value, (str, int, bytes, type(None))) else _UNK
+    if isinstance(e, ast.Name):
+        if e.id in frame.vals:
+            return frame.vals[e.id]
+        if frame.fi is not None:
+            fi = frame.fi
+            if e.id in fi.params():
+                if e.id in frame.binds and not local_defs(fi, e.id):
+                    x, fr = frame.binds[e.id]
+                    return _ev(fr, x, depth + 1)
+                return _UNK
+            if local_defs(fi, e.id):
+                d = _def_of(frame, e)
+                if d is None:
+                    return _UNK
+                v = _ev(frame, d[0], depth + 1)
+                if d[1] is None:
+                    return v
+                return v[d[1]] if isinstance(v, tuple) and 0 <= d[1] < len(v) else _UNK
+        r = repo.resolve_name(frame.module, e.id) if frame.module is not None else None
+        if isinstance(r, tuple) and r[0] == "const":
+            return _ev(_Frame(repo, module=r[1]), r[2], depth + 1)
+        if isinstance(r, ClassInfo):
+            return ("<class>", r.name)             # a class used as the key of a dispatch table
+        return _UNK
+    if isinstance(e, ast.Attribute):
+        c = None
+        b = e.value
+        if isinstance(b, ast.Attribute) and b.attr == "__class__":
+            b = b.value
+        elif isinstance(b, ast.Call) and chain(b.func) == "type" and len(b.args) == 1:
+            b = b.args[0]
+        if frame.fi is not None:
+            rb, fr = _deref(frame, b)
+            if isinstance(rb, ast.Name) and rb.id in ("self", "cls") and fr.fi is not None and fr.fi.cls is not None and rb.id not in fr.binds:
+                c = frame.cls or fr.cls
+        if c is None and frame.module is not None:
+            c = repo.resolve_class_expr(frame.module, b)
+        if c is not None:
+            a = c.lookup_attr(e.attr)
+            if a is not None and not _instance_overrides(c, e.attr):
+                owner = next(k for k in c.mro() if e.attr in k.attrs)
+                return _ev(_Frame(repo, module=owner.module, cls=owner), a, depth + 1)
+        return _UNK
+    if isinstance(e, ast.JoinedStr):
+        out = ""
+        for p in e.values:
+            if isinstance(p, ast.Constant):
+                out += str(p.value)
+                continue
+            if p.format_spec is not None or p.conversion not in (-1, 115):
+                return _UNK
+            v = _ev(frame, p.value, depth + 1)
+            if not isinstance(v, (str, int)) or isinstance(v, bool):
+                return _UNK
+            out += str(v)
+        return out
+    if isinstance(e, (ast.Tuple, ast.List)):
+        out = []
+        for x in e.elts:
+            if isinstance(x, ast.Starred):
+                v = _ev(frame, x.value, depth + 1)
+                if not isinstance(v, tuple):
+                    return _UNK
+                out += list(v)
+            else:
+                v = _ev(frame, x, depth + 1)
+                if v is _UNK:
+                    return _UNK
+                out.append(v)
+        return tuple(out)
+    if isinstance(e, ast.Dict):
+        out = {}
+        for k, v in zip(e.keys, e.values):
+            kv = _ev(frame, k, depth + 1) if k is not None else _UNK
+            if kv is _UNK or isinstance(kv, dict):
+                return _UNK
+            out[kv] = _ev(frame, v, depth + 1)          # an unreadable member only matters when it is the one looked up
+        return out
+    if isinstance(e, ast.Subscript):
+        base = _ev(frame, e.value, depth + 1)
+        if isinstance(e.slice, ast.Slice) or base is _UNK:
+            return _UNK
+        k = _ev(frame, e.slice, depth + 1)
+        try:
+            return base[k] if isinstance(base, (dict, tuple, str)) and k is not _UNK else _UNK
+        except (KeyError, IndexError, TypeError):
+            return _UNK
+    if isinstance(e, ast.BinOp):
+        l, r = _ev(frame, e.left, depth + 1), _ev(frame, e.right, depth + 1)
+        if l is _UNK or r is _UNK:
+            return _UNK
+        try:
+            if isinstance(e.op, ast.Add) and type(l) is type(r) and isinstance(l, (str, tuple, int)):
+                return l + r
+            if isinstance(e.op, ast.Mult) and ((isinstance(l, (str, tuple)) and type(r) is int) or (type(l) is int and isinstance(r, (str, tuple, int)))):
+                return l * r if abs(l if type(l) is int else r) < 200 else _UNK
+            if isinstance(e.op, ast.Sub) and type(l) is int and type(r) is int:
+                return l - r
+            if isinstance(e.op, ast.Mod) and isinstance(l, str) and (isinstance(r, (str, int)) or (isinstance(r, tuple) and all(isinstance(x, (str, int)) for x in r))):
+                return l % r
+        except (TypeError, ValueError):
+            return _UNK
+        return _UNK
+    if isinstance(e, ast.UnaryOp) and isinstance(e.op, ast.Not):
+        v = _ev(frame, e.operand, depth + 1)
+        return _UNK if v is _UNK else (not v)
+    if isinstance(e, ast.BoolOp):
+        v = _UNK
+        for x in e.values:
+            v = _ev(frame, x, depth + 1)
+            if v is _UNK:
+                return _UNK
+            if bool(v) != isinstance(e.op, ast.And):
+                return v
+        return v
+    if isinstance(e, ast.Compare) and len(e.ops) == 1:
+        l, r = _ev(frame, e.left, depth + 1), _ev(frame, e.comparators[0], depth + 1)
+        if l is _UNK or r is _UNK:
+            return _UNK
+        op = e.ops[0]
+        try:
+            if isinstance(op, (ast.Eq, ast.Is)):
+                return l == r
+            if isinstance(op, (ast.NotEq, ast.IsNot)):
+                return l != r
+            if isinstance(op, ast.In):
+                return l in r
+            if isinstance(op, ast.NotIn):
+                return l not in r
+        except TypeError:
+            return _UNK
+        return _UNK
+    if isinstance(e, ast.IfExp):
+        t = _ev(frame, e.test, depth + 1)
+        return _UNK if t is _UNK else _ev(frame, e.body if t else e.orelse, depth + 1)
+    if isinstance(e, (ast.GeneratorExp, ast.ListComp)) and len(e.generators) == 1 and not e.generators[0].is_async:
+        g = e.generators[0]
+        it = _ev(frame, g.iter, depth + 1)
+        if isinstance(it, dict):
+            it = tuple(it)
+        if not isinstance(it, (tuple, str)) or not isinstance(g.target, ast.Name):
+            return _UNK
+        out = []
+        for item in it:
+            sub = frame.with_vals({g.target.id: item})
+            keep = [_ev(sub, c, depth + 1) for c in g.ifs]
+            if any(k is _UNK for k in keep):
+                return _UNK
+            if all(keep):
+                v = _ev(sub, e.elt, depth + 1)
+                if v is _UNK:
+                    return _UNK
+                out.append(v)
+        return tuple(out)
+    if isinstance(e, ast.Call):
+        return _ev_call(frame, e, depth)
+    return _UNK
+
+
+def _ev_call(frame: _Frame, e: ast.Call, depth: int):  # noqa: C901, PLR0911
+    f = e.func
+    plain = not e.keywords and not any(isinstance(a, ast.Starred) for a in e.args)
+    if isinstance(f, ast.Name) and f.id in ("len", "tuple", "list", "str", "sorted", "reversed", "range") and plain and len(e.args) == 1:
+        v = _ev(frame, e.args[0], depth + 1)
+        if v is _UNK:
+            return _UNK
+        if f.id == "len":
+            return len(v) if isinstance(v, (tuple, str, dict)) else _UNK
+        if f.id == "str":
+            return str(v) if isinstance(v, (str, int)) and not isinstance(v, bool) else _UNK
+        if f.id == "range":
+            return tuple(range(v)) if type(v) is int and 0 <= v < 200 else _UNK
+        if f.id == "reversed":
+            return tuple(reversed(v)) if isinstance(v, (tuple, str)) else _UNK
+        if f.id == "sorted":
+            try:
+                return tuple(sorted(v)) if isinstance(v, (tuple, dict)) else _UNK
+            except TypeError:
+                return _UNK
+        return tuple(v) if isinstance(v, (tuple, str, dict)) else _UNK
+    if isinstance(f, ast.Attribute) and f.attr == "join" and plain and len(e.args) == 1:
+        sep, items = _ev(frame, f.value, depth + 1), _ev(frame, e.args[0], depth + 1)
+        if isinstance(items, dict):
+            items = tuple(items)
+        if isinstance(sep, str) and isinstance(items, (tuple, str)) and all(isinstance(x, str) for x in items):
+            return sep.join(items)
+        return _UNK
+    if isinstance(f, ast.Attribute) and f.attr == "format":
+        base = _ev(frame, f.value, depth + 1)
+        args = [_ev(frame, a, depth + 1) for a in e.args]
+        kws = {k.arg: _ev(frame, k.value, depth + 1) for k in e.keywords}
+        if isinstance(base, str) and None not in kws and not any(isinstance(a, ast.Starred) for a in e.args) \
+                and all(isinstance(v, (str, int)) and not isinstance(v, bool) for v in [*args, *kws.values()]):
+            try:
+                return base.format(*args, **kws)
+            except (IndexError, KeyError, ValueError):
+                return _UNK
+        return _UNK
+    if isinstance(f, ast.Attribute) and f.attr in ("get", "keys", "values", "items") and plain:
+        base = _ev(frame, f.value, depth + 1)
+        if isinstance(base, dict):
+            if f.attr == "get" and len(e.args) in (1, 2):
+                k = _ev(frame, e.args[0], depth + 1)
+                if k is _UNK or isinstance(k, dict):
+                    return _UNK
+                return base[k] if k in base else (_ev(frame, e.args[1], depth + 1) if len(e.args) == 2 else None)
+            if f.attr == "keys" and not e.args:
+                return tuple(base)
+            if f.attr == "values" and not e.args:
+                return tuple(base.values()) if all(v is not _UNK for v in base.values()) else _UNK
+        return _UNK
+    if isinstance(f, ast.Attribute) and f.attr in ("upper", "lower", "strip") and not e.args and not e.keywords:
+        base = _ev(frame, f.value, depth + 1)
+        return getattr(base, f.attr)() if isinstance(base, str) else _UNK
+    # a tiny pure helper: evaluate its body with the parameters bound to this call's arguments
+    if frame.fi is None or frame.depth() >= _MAX_FRAMES:
+        return _UNK
+    target = _self_target(frame, e)
+    if target is None:
+        ts = frame.repo.resolve_call(frame.fi, e)
+        target = ts[0] if len(ts) == 1 else None
+    if target is None or target.is_async or any(isinstance(x, (ast.Yield, ast.YieldFrom)) for x in walk_no_nested(target.node)):
+        return _UNK
+    sub = _bind_call(frame, e, target)
+    sub.vals = {}
+    r = _ev_block(sub, target.node.body, depth + 1)
+    return _UNK if r is _FALL else r
+
+
+def _ev_block(frame: _Frame, stmts: list, depth: int):
+    """run a straight-line / if-else body on known values: the returned value, _FALL (no return reached) or _UNK"""
+    for st in stmts:
+        if isinstance(st, ast.Return):
+            return _ev(frame, st.value, depth) if st.value is not None else None
+        if isinstance(st, ast.If):
+            t = _ev(frame, st.test, depth)
+            if t is _UNK:
+                return _UNK
+            r = _ev_block(frame, st.body if t else st.orelse, depth)
+            if r is not _FALL:
+                return r
+        elif isinstance(st, (ast.Assign, ast.AnnAssign)):
+            targets = st.targets if isinstance(st, ast.Assign) else [st.target]
+            if st.value is None:
+                continue
+            if len(targets) != 1 or not isinstance(targets[0], ast.Name):
+                return _UNK
+            frame.vals[targets[0].id] = _ev(frame, st.value, depth)
+        elif isinstance(st, ast.Pass) or (isinstance(st, ast.Expr) and isinstance(st.value, ast.Constant)):
+            continue
+        elif isinstance(st, ast.Expr) and isinstance(st.value, ast.Call) and "logger" in (chain(st.value.func) or ""):
+            continue
+        else:
+            return _UNK
+    return _FALL
+
+
+def _text(frame: _Frame, e: ast.AST | None, depth: int = 0) -> str | None:
+    """Text of a statement expression with `{}` for the parts only known at run time (f-string holes, % / format arguments)."""
+    if e is None or depth > 8:
+        return None
+    v = _ev(frame, e)
+    if isinstance(v, str):
+        return v
+    e, fr = _deref(frame, e)
+    if isinstance(e, ast.JoinedStr):
+        out = ""
+        for p in e.values:
+            if isinstance(p, ast.Constant):
+                out += str(p.value)
+            else:
+                v = _ev(fr, p.value)
+                out += str(v) if isinstance(v, (str, int)) and not isinstance(v, bool) and p.format_spec is None else "{}"
+        return out
+    if isinstance(e, ast.BinOp) and isinstance(e.op, ast.Add):
+        l, r = _text(fr, e.left, depth + 1), _text(fr, e.right, depth + 1)
+        return None if l is None or r is None else l + r
+    if isinstance(e, ast.BinOp) and isinstance(e.op, ast.Mod):
+        return _text(fr, e.left, depth + 1)
+    if isinstance(e, ast.Call) and isinstance(e.func, ast.Attribute) and e.func.attr == "format":
+        return _text(fr, e.func.value, depth + 1)
+    return None
+
+
+# ------------------------------------------------------------------------------------------------------------------
+# SQL call sites of a function, followed into the helpers of the same object (any depth up to _MAX_FRAMES)
+
+_EXEC = ("execute", "executemany", "executescript")
+_WRITE_SQL = re.compile(r"\s*(INSERT|REPLACE|UPDATE|DELETE)", re.I)
+
+
+class _Site:
+    """one `self.execute*(...)` call reached from the analysed function, with the frame (parameter bindings) it runs in"""
+
+    def __init__(self, frame: _Frame, call: ast.Call) -> None:
+        self.frame, self.call = frame, call
+        # positional arguments with `*<tuple literal / tuple a helper returns>` spread out: (expression, frame it is read in)
+        self.pos: list[tuple[ast.AST, _Frame]] | None = []
+        for a in call.args:
+            if isinstance(a, ast.Starred):
+                v, fr = _deref(frame, a.value)
+                if isinstance(v, (ast.Tuple, ast.List)) and not any(isinstance(x, ast.Starred) for x in v.elts):
+                    self.pos += [(x, fr) for x in v.elts]
+                    continue
+                if len(self.pos) < 2:
+                    self.pos = None
+                break
+            self.pos.append((a, frame))
+        st = self._stmt_arg()
+        self.text = _text(st[1], st[0]) if st is not None else None
+
+    def _nth(self, index: int, *names: str) -> tuple[ast.AST, _Frame] | None:
+        if self.pos is not None and index < len(self.pos):
+            return self.pos[index]
+        for k in self.call.keywords:
+            if k.arg in names:
+                return k.value, self.frame
+        return None
+
+    def _stmt_arg(self) -> tuple[ast.AST, _Frame] | None:
+        return self._nth(0, "statement", "statements")
+
+    def bindings_arg(self) -> tuple[ast.AST, _Frame] | None:
+        return self._nth(1, "bindings", "sequenceofbindings")
+
+    @property
+    def sql(self) -> str:
+        if self.text is not None:
+            return self.text
+        a = self._stmt_arg()
+        return norm(a[0]) if a is not None else ""
+
+    def levels(self) -> list[tuple[_Frame, ast.Call]]:
+        """[(frame, call in that frame)] from the outermost function down to the execute call itself"""
+        return [*self.frame.chain_calls(), (self.frame, self.call)]
+
+
+def _runs_at_least_once(frame: _Frame, loop: ast.AST) -> bool:
+    """a for loop over a literal (or *rest arguments) with at least one plain element"""
+    if not isinstance(loop, (ast.For, ast.AsyncFor)):
+        return False
+    it, _ = _deref(frame, loop.iter)
+    return isinstance(it, (ast.Tuple, ast.List)) and any(not isinstance(x, ast.Starred) for x in it.elts)
+
+
+def _feasible(ctx: Ctx, frame: _Frame, starts=None, *, cut_nodes=(), follow_exc: bool = False) -> set:
+    """Reachability in the frame's function that leaves out what the frame's bindings rule out: a branch whose test is decided by the
+    bound constants (the flag / tag parameter of a merged helper) and the zero-iteration exit of a loop over a non-empty literal."""
+    cfg = ctx.cfg(frame.fi)
+    full = [n for n in cfg.nodes if n.kind == "loop" and _runs_at_least_once(frame, n.ast)]
+    decided: dict[int, object] = {}
+
+    def cut(u, v, lab) -> bool:
+        if u in full and lab is False and u not in released:
+            return True
+        if u.kind == "cond" and lab in (True, False) and u.ast is not None and frame.binds:
+            if u.id not in decided:
+                decided[u.id] = _ev(frame, u.ast)
+            val = decided[u.id]
+            return val is not _UNK and bool(val) != lab
+        return False
+    released: set = set()
+    seen: set = set()
+    frontier = [cfg.entry] if starts is None else list(starts)
+    while frontier:
+        seen |= cfg.reach(frontier, cut_nodes=cut_nodes, cut_edge=cut, follow_exc=follow_exc)
+        frontier = []
+        for L in full:
+            if L in seen and L not in released and any(p_ in seen and p_.ast is not L.ast.iter for p_, _ in L.pred):
+                released.add(L)
+                frontier.append(L)
+        seen -= set(frontier)
+    return seen
+
+
+def _live(frame: _Frame, node: ast.AST) -> bool:
+    """the bindings of the frame do not rule out that this node runs"""
+    if not frame.binds or frame.ctx is None or frame.fi is None:
+        return True
+    ns = frame.ctx.cfg(frame.fi).nodes_for(node)
+    if not ns:
+        return True
+    if frame.live is None:
+        frame.live = ()                       # while it is being computed nothing is ruled out (the tests themselves use _live)
+        frame.live = _feasible(frame.ctx, frame, follow_exc=True)
+    return not frame.live or any(n in frame.live for n in ns)
+
+
+def _helper_calls(frame: _Frame, generators: bool = False) -> list[tuple[ast.Call, FuncInfo]]:
+    """calls in this frame's function that run another method of the same object / a module function handed the object
+    (generator helpers only on request: their body runs when the result is iterated, not when they are called)"""
+    out = []
+    if frame.fi is None or frame.depth() >= _MAX_FRAMES:
+        return out
+    active = set()
+    f = frame
+    while f is not None:
+        if f.fi is not None:
+            active.add(f.fi)
+        f = f.caller
+    for c in calls(frame.fi):
+        if call_name(c) in _EXEC or call_name(c) == "commit" or not _live(frame, c):
+            continue
+        h = _self_target(frame, c)
+        picked = [(h, ())] if h is not None else _picked_targets(frame, c)
+        for h, cond in picked:
+            if h not in active and (generators or not any(isinstance(x, (ast.Yield, ast.YieldFrom)) for x in walk_no_nested(h.node))):
+                if cond:
+                    frame.alts[(id(c), h)] = cond
+                out.append((c, h))
+    return out
+
+
+def _sql_sites(frame: _Frame, generators: bool = False) -> list[_Site]:
+    out = []
+    if frame.fi is None:
+        return out
+    for c in calls(frame.fi):
+        if call_name(c) in _EXEC and isinstance(c.func, ast.Attribute) and _is_self(frame, c.func.value) and _live(frame, c):
+            out.append(_Site(frame, c))
+    for c, h in _helper_calls(frame, generators):
+        out += _sql_sites(_bind_call(frame, c, h), generators)
+    return out
+
+
+def _commit_calls(frame: _Frame) -> list[ast.Call]:
+    return [c for c in calls(frame.fi) if call_name(c) == "commit" and isinstance(c.func, ast.Attribute) and _is_self(frame, c.func.value)]
+
+
+def _nodes_doing(ctx: Ctx, frame: _Frame, direct) -> list:
+    """CFG nodes of the frame's function that do something: direct(frame) lists the syntax nodes that do it right here; a call of a helper
+    of the same object counts as well when every normal path through that helper does it (recursively)."""
+    cfg = ctx.cfg(frame.fi)
+    out = [n for a in direct(frame) if _live(frame, a) for n in cfg.nodes_for(a)]
+    verdict: dict[int, tuple[ast.Call, bool]] = {}
+    for c, h in _helper_calls(frame):
+        sub = _bind_call(frame, c, h)
+        hn = [] if h.is_async else _nodes_doing(ctx, sub, direct)
+        does = bool(hn) and ctx.cfg(h).exit not in _feasible(ctx, sub, cut_nodes=hn)
+        verdict[id(c)] = (c, verdict.get(id(c), (c, True))[1] and does)        # a callee picked by a condition: every alternative
+    for c, does in verdict.values():
+        if does:
+            out += cfg.nodes_for(c)
+    return out
+
+
+def _commit_nodes(ctx: Ctx, frame: _Frame) -> list:
+    return _nodes_doing(ctx, frame, _commit_calls)
+
+
+def _exc_escapes(cfg, node: ast.AST) -> bool:
+    """an exception raised by this call leaves the function as an exception (no handler turns it into a normal return)"""
+    starts = [v for n in cfg.nodes_for(node) for v, lab in n.succ if lab == "exc"]
+    return cfg.exit not in cfg.reach(starts)
+
+
+def _committed_before_return(ctx: Ctx, site: _Site) -> bool:
+    """At some level of the call chain every normal path from the write (the call that leads to it) to that function's return passes a
+    commit: whatever the deeper levels do after the write, control comes back to that level and commits before the insert returns."""
+    for fr, c in site.levels():
+        cfg = ctx.cfg(fr.fi)
+        cn = _commit_nodes(ctx, fr)
+        ns = cfg.nodes_for(c)
+        if cn and ns and all(cfg.exit not in _feasible(ctx, fr, [v for v, lab in n.succ if lab != "exc"], cut_nodes=cn) for n in ns):
+            return True
+    return False
 
 
 def insert_functions(ctx: Ctx) -> list[FuncInfo]:
@@ -98,40 +788,52 @@ def insert_functions(ctx: Ctx) -> list[FuncInfo]:
     return out
 
 
+def _frames_of(top: _Frame, sites: list[_Site]) -> list[_Frame]:
+    """the distinct function frames on the call chains from the analysed function to these sites"""
+    out: list[_Frame] = [top]
+    for s_ in sites:
+        for fr, _ in s_.levels():
+            if not any(o.fi is fr.fi for o in out):
+                out.append(fr)
+    return out
+
+
 def rule_commit_after_insert(ctx: Ctx) -> None:
+    _G["repo"] = ctx.repo
     ins = insert_functions(ctx)
     ctx.floor("commit-after-insert", len(ins), 4)
     for fi in ins:
-        cfg = ctx.cfg(fi)
-        ex = [c for c in calls(fi, "self.execute") if re.match(r"\s*(INSERT|REPLACE|UPDATE|DELETE)", _sql_of(c, fi), re.I)]
-        # the write may be issued by a helper of the same class that is handed the statement (one level)
-        helper_sites = []
-        if not ex and fi.cls is not None:
-            for c in calls(fi):
-                ch = chain(c.func) or ""
-                if ch.startswith("self.") and ch.count(".") == 1 and c.args and re.match(r"\s*(INSERT|REPLACE|UPDATE|DELETE)", _sql_of(c, fi), re.I):
-                    h = fi.cls.lookup(call_name(c))
-                    if h is not None:
-                        for e in calls(h, ["self.execute", "self.executemany"]):
-                            helper_sites.append((h, e, c))
-        ctx.check(bool(ex) or bool(helper_sites), "commit-after-insert", fi, fi.node, f"{fi.qualname} issues its INSERT through self.execute", f"{fi.qualname} has no recognisable write statement")
-        cm = [n for c in calls(fi, "self.commit") for n in cfg.nodes_for(c)]
-        for e in ex:
-            ok = bool(cm) and all(cfg.always_followed_by(n, cm) for n in cfg.nodes_for(e))
-            ctx.check(ok, "commit-after-insert", fi, e, f"{fi.qualname}: every normal path from the INSERT to the return passes self.commit()",
-                      f"{fi.qualname} can return after its INSERT without committing: a record whose insert call returned is lost by a crash")
-        for h, e, c in helper_sites:
-            hcfg = ctx.cfg(h)
-            hcm = [n for k in calls(h, "self.commit") for n in hcfg.nodes_for(k)]
-            ok = (bool(hcm) and all(hcfg.always_followed_by(n, hcm) for n in hcfg.nodes_for(e))) or \
-                (bool(cm) and all(cfg.always_followed_by(n, cm) for n in cfg.nodes_for(c)))
-            ctx.check(ok, "commit-after-insert", fi, c, f"{fi.qualname}: the helper {h.name} (or the caller) commits on every normal path after the INSERT",
-                      f"{fi.qualname} writes through {h.qualname}, which can return after the INSERT without committing (the commit is conditional): "
-                      "a record whose insert call returned is lost by a crash")
-        for c in calls(fi, "self.commit"):
-            ctx.check(not c.args and not c.keywords, "commit-after-insert", fi, c, "plain commit()", "commit is called with arguments that change its meaning")
-        ctx.check(not fi.is_async and not fi.node.decorator_list, "commit-after-insert", fi, fi.node, f"{fi.qualname} is a plain synchronous method",
-                  f"{fi.qualname} is wrapped/async: the commit may not have happened when the call returns")
+        top = _top(ctx, fi)
+        sites = _sql_sites(top)
+        writes = [s_ for s_ in sites if _WRITE_SQL.match(s_.sql)]
+        if not writes and any(s_.text is None for s_ in sites):
+            s_ = next(x for x in sites if x.text is None)
+            raise AnalysisError(f"undecided: cannot read the statement that {fi.qualname} executes (`{norm(s_.call)[:100]}` in {s_.frame.fi.qualname})")
+        ctx.check(bool(writes), "commit-after-insert", fi, fi.node, f"{fi.qualname} issues its INSERT through self.execute", f"{fi.qualname} has no recognisable write statement")
+        for s_ in writes:
+            here = s_.levels()[0][1]             # the call in the insert function itself: the execute or the helper that leads to it
+            h = s_.frame.fi
+            if h is fi:
+                ctx.check(_committed_before_return(ctx, s_), "commit-after-insert", fi, here,
+                          f"{fi.qualname}: every normal path from the INSERT to the return passes self.commit()",
+                          f"{fi.qualname} can return after its INSERT without committing: a record whose insert call returned is lost by a crash")
+            else:
+                ctx.check(_committed_before_return(ctx, s_), "commit-after-insert", fi, here,
+                          f"{fi.qualname}: the helper {h.name} (or the caller) commits on every normal path after the INSERT",
+                          f"{fi.qualname} writes through {h.qualname}, which can return after the INSERT without committing (the commit is conditional): "
+                          "a record whose insert call returned is lost by a crash")
+        for fr in _frames_of(top, writes):
+            g = fr.fi
+            cfg = ctx.cfg(g)
+            for c in _commit_calls(fr):
+                ctx.check(not c.args and not c.keywords, "commit-after-insert", g, c, "plain commit()", "commit is called with arguments that change its meaning")
+                ctx.check(_exc_escapes(cfg, c), "commit-after-insert", g, c, f"{g.qualname}: a failing commit() is not turned into a normal return",
+                          f"{g.qualname} catches the exception of a failing commit() and returns normally: the insert call returns although its record was "
+                          "not made durable, and a crash afterwards loses it")
+            # a helper may carry the lock wrapper that execute() and commit() carry themselves (it runs the body synchronously under the lock)
+            plain = not g.node.decorator_list or (g is not fi and all(chain(d) == "db_call" for d in g.node.decorator_list))
+            ctx.check(not g.is_async and plain, "commit-after-insert", g, g.node, f"{g.qualname} is a plain synchronous method",
+                      f"{g.qualname} is wrapped/async: the commit may not have happened when the call returns")
 
 
 PENDING = "self._pending_commits"
@@ -141,19 +843,104 @@ def _is_pending(fi: FuncInfo, e: ast.AST) -> bool:
     return rchain(fi, e) == PENDING
 
 
-def _pending_is_zero(f) -> bool:
-    """does this dominating fact say that self._pending_commits is 0 (the counter is never negative)?"""
-    if f.op == "truthy":
-        return not f.pos and chain(strip_cast(f.left)) == PENDING
-    l, r = chain(strip_cast(f.left)), chain(strip_cast(f.right))
-    lv, rv = _is_int(f.left), _is_int(f.right)
-    if f.op == "eq" and f.pos:
-        return (l == PENDING and rv == 0) or (r == PENDING and lv == 0)
-    if f.op == "lt" and f.pos:          # pending < 1
-        return l == PENDING and rv is not None and rv <= 1
-    if f.op == "lt" and not f.pos:      # not (0 < pending)  ==  pending <= 0
-        return r == PENDING and lv is not None and lv <= 0
+def _pending_now(fi: FuncInfo | None, cfg, e: ast.AST, site) -> bool:
+    """e is, at `site`, the current value of self._pending_commits: the attribute itself, or a local snapshot of it such that no store
+    into the attribute lies on a path from the snapshot to the site (otherwise the snapshot may be stale and is NOT the counter)."""
+    e = strip_cast(e)
+    if chain(e) == PENDING:
+        return True
+    hops = 0
+    while fi is not None and cfg is not None and isinstance(e, ast.Name) and hops < 4 and e.id not in fi.params():
+        hops += 1
+        defs = local_defs(fi, e.id)
+        if len(defs) != 1 or defs[0][1] is None or defs[0][2] is not None:
+            return False
+        stmt, v, _ = defs[0]
+        v = strip_cast(v)
+        if chain(v) == PENDING:
+            stores_ = [st for st, _ in _stored_values(fi, PENDING)]
+            if any(st is stmt for st in stores_):
+                return False
+            after = cfg.reach([x for n in cfg.nodes_for(stmt) for x, lab in n.succ if lab != "exc"])
+            sn = [site] if not isinstance(site, ast.AST) else cfg.nodes_for(site)
+            for st in stores_:
+                for n in cfg.nodes_for(st):
+                    if n in after and any(t in cfg.reach([x for x, lab in n.succ if lab != "exc"]) for t in sn):
+                        return False
+            return True
+        e = v
     return False
+
+
+def _pending_is_zero(f, fi: FuncInfo | None = None, cfg=None, site=None) -> bool:
+    """does this dominating fact say that self._pending_commits is 0 (the counter is never negative)?  Either spelling of the test,
+    on the attribute or on an up-to-date local snapshot of it."""
+    def pend(x) -> bool:
+        return x is not None and _pending_now(fi, cfg, x, site)
+    if f.op == "truthy":
+        return not f.pos and pend(f.left)
+    lv, rv = _is_int(f.left, fi), _is_int(f.right, fi)
+    if f.op in ("eq", "is") and f.pos:
+        return (pend(f.left) and rv == 0) or (pend(f.right) and lv == 0)
+    if f.op == "lt" and f.pos:          # pending < 1
+        return pend(f.left) and rv is not None and rv <= 1
+    if f.op == "lt" and not f.pos:      # not (0 < pending)  ==  pending <= 0
+        return pend(f.right) and lv is not None and lv <= 0
+    if f.op == "in" and f.pos:          # pending in (0,)
+        m = _members(resolve(fi, f.right) if fi is not None else f.right)
+        return pend(f.left) and m == {0}
+    return False
+
+
+def _pending_at_most(f, fi: FuncInfo | None = None, cfg=None, site=None) -> int | None:
+    """the largest value the counter can have when this fact holds (None: the fact does not bound it from above)"""
+    def pend(x) -> bool:
+        return x is not None and _pending_now(fi, cfg, x, site)
+    if _pending_is_zero(f, fi, cfg, site):
+        return 0
+    if f.op == "truthy":
+        return None
+    lv, rv = _is_int(f.left, fi), _is_int(f.right, fi)
+    if f.op in ("eq", "is") and f.pos:
+        return rv if pend(f.left) and rv is not None else lv if pend(f.right) and lv is not None else None
+    if f.op == "lt" and f.pos and pend(f.left) and rv is not None:           # pending < k
+        return rv - 1
+    if f.op == "lt" and not f.pos and pend(f.right) and lv is not None:      # not (k < pending)
+        return lv
+    return None
+
+
+def _pending_is_nonzero(f, fi: FuncInfo | None = None, cfg=None, site=None) -> bool:
+    return _pending_is_zero(Fact(f.op, f.left, f.right, not f.pos, f.atom), fi, cfg, site)
+
+
+def _decision_means_zero(ctx: Ctx, frame: _Frame, f) -> bool | None:
+    """A fact `helper(...)` / `not helper(...)` about a boolean decision helper of the same object that could not be inlined: True when
+    the fact holds exactly when the counter is 0 (every return of the helper that can make the fact true is dominated by `counter is 0`,
+    every other return by `counter is not 0`), False when the fact is no call of such a helper, None when the helper cannot be read."""
+    if f.op != "truthy" or not isinstance(strip_cast(f.left), ast.Call):
+        return False
+    call = strip_cast(f.left)
+    h = _self_target(frame, call)
+    if h is None or h.is_async or frame.depth() >= _MAX_FRAMES:
+        return False
+    hcfg = ctx.cfg(h)
+    rets = [r for r in walk_no_nested(h.node) if isinstance(r, ast.Return)]
+    falls = any(u.kind != "stmt" or not isinstance(u.ast, ast.Return) for u, lab in hcfg.exit.pred if u in hcfg.reach())
+    if not rets or falls:
+        return None
+    for r in rets:
+        v = const_value(r.value) if r.value is not None else None
+        if r.value is not None and not isinstance(v, (bool, int, type(None))):
+            return None
+        fs = facts_at(hcfg, r)
+        zero = any(_pending_is_zero(g, h, hcfg, r) for g in fs)
+        nonzero = any(_pending_is_nonzero(g, h, hcfg, r) for g in fs)
+        if bool(v) == f.pos and not zero:
+            return False if nonzero else None
+        if bool(v) != f.pos and not nonzero:
+            return False if zero else None
+    return True
 
 
 def _keeps_pending(ctx: Ctx, fi: FuncInfo, cfg, v: ast.AST, depth: int = 0) -> bool | None:
@@ -180,8 +967,9 @@ def _keeps_pending(ctx: Ctx, fi: FuncInfo, cfg, v: ast.AST, depth: int = 0) -> b
         return None
     k = _is_int(v)
     if k is not None:
-        # a constant is fine only where the counter is known to be 0
-        return k >= 0 and any(_pending_is_zero(f) for f in facts_at(cfg, site))
+        # a constant is fine only where the counter is known not to exceed it (`if pending < 1: pending = 1`, `1 if pending <= 1 else pending`)
+        bounds = [b for b in (_pending_at_most(f, fi, cfg, site) for f in facts_at(cfg, site)) if b is not None]
+        return k >= 0 and any(b <= k for b in bounds)
     return None
 
 
@@ -194,12 +982,13 @@ def _enter_keeps_pending(ctx: Ctx) -> None:
     the finished batch stays in an open transaction - lost by a kill although its insert call and the whole batch returned.
     """
     repo = ctx.repo
-    en = repo.method("Database", "__enter__", DB)
-    cfg = ctx.cfg(en)
-    sv = _stored_values(en, PENDING)
+    en0 = repo.method("Database", "__enter__", DB)
+    # the store may live in a helper of the object that __enter__ calls
+    sv = [(fr.fi, st, v) for fr in _all_frames(_top(ctx, en0)) for st, v in _stored_values(fr.fi, PENDING)]
     if not sv:
-        ctx.instance("no-deferred-commit", en.where(), "__enter__ does not write _pending_commits (nothing is deferred)", nontrivial=False)
-    for st, v in sv:
+        ctx.instance("no-deferred-commit", en0.where(), "__enter__ does not write _pending_commits (nothing is deferred)", nontrivial=False)
+    for en, st, v in sv:
+        cfg = ctx.cfg(en)
         if v is None and isinstance(st, ast.AugAssign):
             k = _is_int(st.value, en)
             verdict = (k >= 0) if isinstance(st.op, ast.Add) and k is not None else None
@@ -212,7 +1001,221 @@ def _enter_keeps_pending(ctx: Ctx) -> None:
                   "enclosing block, so neither __exit__ calls connection.commit() and the inserts of a finished batch are lost by a kill")
 
 
+def _level_facts(ctx: Ctx, fr: _Frame, c: ast.Call) -> list[tuple[_Frame, ast.Call, Fact]]:
+    """(frame, call, fact) for every guard on the way to call c of frame fr: the dominating facts of each call of the chain in its own
+    function, plus the test under which a conditionally picked callee is the one that runs"""
+    levels = [*fr.chain_calls(), (fr, c)]
+    out = []
+    for i, (lf, lc) in enumerate(levels):
+        out += [(lf, lc, f) for f in facts_at(ctx.cfg(lf.fi), lc)]
+        callee = levels[i + 1][0] if i + 1 < len(levels) else None
+        for test, pol, tfr in (callee.cond if callee is not None else ()):
+            out += [(tfr if tfr.fi is lf.fi else lf, lc, f) for f in _atoms_with_polarity(test, pol)]
+    return out
+
+
+def _all_frames(top: _Frame) -> list[_Frame]:
+    """the function and (transitively) the helpers of the same object it calls, each with the bindings of its call"""
+    out = [top]
+    for c, h in _helper_calls(top):
+        out += _all_frames(_bind_call(top, c, h))
+    return out
+
+
+def _calls_through(frame: _Frame, pred) -> list[tuple[_Frame, ast.Call]]:
+    """calls with pred(frame, call) in the frame's function or in the helpers of the same object that it calls (with their bindings)"""
+    out = [(frame, c) for c in calls(frame.fi) if pred(frame, c) and _live(frame, c)]
+    for c, h in _helper_calls(frame):
+        out += _calls_through(_bind_call(frame, c, h), pred)
+    return out
+
+
+def _nodes_maybe(ctx: Ctx, frame: _Frame, pred) -> list:
+    """CFG nodes of the frame's function that may run a call with pred(frame, call): directly or somewhere inside a helper"""
+    cfg = ctx.cfg(frame.fi)
+    out = [n for c in calls(frame.fi) if pred(frame, c) and _live(frame, c) for n in cfg.nodes_for(c)]
+    for c, h in _helper_calls(frame):
+        if _calls_through(_bind_call(frame, c, h), pred):
+            out += cfg.nodes_for(c)
+    return out
+
+
+def _loop_row_values(frame: _Frame, name: ast.AST) -> list[ast.AST] | None:
+    """`for a, b in ((x1, y1), (x2, y2)): ... b ...`: the expressions the loop variable `name` stands for, one per row of the literal table"""
+    if not isinstance(name, ast.Name) or frame.fi is None:
+        return None
+    defs = local_defs(frame.fi, name.id)
+    if len(defs) != 1 or not isinstance(defs[0][0], (ast.For, ast.AsyncFor)):
+        return None
+    loop = defs[0][0]
+    it, _ = _deref(frame, loop.iter)
+    if not isinstance(it, (ast.Tuple, ast.List)):
+        return None
+    if isinstance(loop.target, ast.Name):
+        return list(it.elts)
+    if isinstance(loop.target, (ast.Tuple, ast.List)) and all(isinstance(t, ast.Name) for t in loop.target.elts):
+        pos = [t.id for t in loop.target.elts].index(name.id)
+        if all(isinstance(r, (ast.Tuple, ast.List)) and len(r.elts) == len(loop.target.elts) and not any(isinstance(x, ast.Starred) for x in r.elts) for r in it.elts):
+            return [r.elts[pos] for r in it.elts]
+    return None
+
+
+def _is_method_ref(frame: _Frame, e: ast.AST, meth: str) -> bool:
+    e, fr = _deref(frame, e)
+    return isinstance(e, ast.Attribute) and e.attr == meth and _is_self(fr, e.value)
+
+
+def _runs_method(frame: _Frame, c: ast.Call, meth: str) -> bool:
+    """the call runs self.<meth>: directly, through a local alias, or as the loop variable of a literal dispatch table that holds it"""
+    if _is_method_ref(frame, c.func, meth):
+        return True
+    rows = _loop_row_values(frame, c.func)
+    return rows is not None and any(_is_method_ref(frame, r, meth) for r in rows)
+
+
+def _row_of_call(frame: _Frame, c: ast.Call, meth: str) -> list[int] | None:
+    """indices of the dispatch-table rows in which the called loop variable is self.<meth> (None: not a table call)"""
+    rows = _loop_row_values(frame, c.func)
+    return None if rows is None else [i for i, r in enumerate(rows) if _is_method_ref(frame, r, meth)]
+
+
+def _flag_fact(ctx: Ctx, frame: _Frame, f, name: str, rows: list[int] | None = None, *, exact: bool = True) -> bool:
+    """The fact says that flag parameter `name` of the outermost function is true: it tests the parameter itself, or it is the result of
+    a decision helper of the same object that could not be inlined and that answers true only where the parameter is true
+    (exact: and false only where it is false)."""
+    if f.op != "truthy" or not f.pos:
+        return False
+    if _is_param(frame, f.left, name, rows):
+        return True
+    call = strip_cast(f.left)
+    h = _self_target(frame, call) if isinstance(call, ast.Call) else None
+    if h is None or h.is_async or frame.depth() >= _MAX_FRAMES:
+        return False
+    sub = _bind_call(frame, call, h)
+    hcfg = ctx.cfg(h)
+    if any(u.kind != "stmt" or not isinstance(u.ast, ast.Return) for u, _ in hcfg.exit.pred if u in hcfg.reach()) and exact:
+        return False
+    for r in [x for x in walk_no_nested(h.node) if isinstance(x, ast.Return)]:
+        if r.value is not None and _is_param(sub, r.value, name):
+            continue
+        v = const_value(r.value) if r.value is not None else None
+        if r.value is not None and not isinstance(v, (bool, int, type(None))):
+            return False
+        fs = facts_at(hcfg, r)
+        if v and not any(g.op == "truthy" and g.pos and _is_param(sub, g.left, name) for g in fs):
+            return False
+        if not v and exact and not any(g.op == "truthy" and not g.pos and _is_param(sub, g.left, name) for g in fs):
+            return False
+    return True
+
+
+def _is_param(frame: _Frame, e: ast.AST, name: str, rows: list[int] | None = None) -> bool:
+    """e is parameter `name` of the outermost analysed function (through aliases / helper parameters; for a loop variable over a literal
+    dispatch table: in every one of the given rows)"""
+    b, fr = _deref(frame, e)
+    if isinstance(b, ast.Name) and rows is not None:
+        vals = _loop_row_values(fr, b)
+        if vals is not None:
+            return bool(rows) and all(_is_param(fr, vals[i], name) for i in rows)
+    return isinstance(b, ast.Name) and b.id == name and fr.caller is None and fr.fi is not None and name in fr.fi.params() and not local_defs(fr.fi, name)
+
+
+def _private_part_of(ctx: Ctx, fi: FuncInfo, allowed: tuple, depth: int = 0) -> bool:
+    """fi is a private helper of the Database class that is only ever called, and only from the allowed members (or from such helpers)"""
+    if fi.cls is None or fi.cls.name != "Database" or fi.module.relpath != DB or not fi.name.startswith("_") or fi.name.startswith("__") or depth > 3:
+        return False
+    called = False
+    for m, g, n in ctx.repo.attribute_uses(fi.name):
+        if g is None or not (g.qualname in allowed or _private_part_of(ctx, g, allowed, depth + 1)):
+            return False
+        if not isinstance(parent(n), ast.Call) or parent(n).func is not n:
+            # referenced as a value: fine while it only serves to pick the callee inside that member (`(self._a if t else self._b)()`,
+            # `step = self._a` ... `step()`), not when it is stored, passed on or returned
+            p_ = parent(n)
+            while isinstance(p_, ast.IfExp):
+                p_ = parent(p_)
+            picks = isinstance(p_, ast.Call) and isinstance(p_.func, ast.IfExp)
+            local = isinstance(p_, ast.Assign) and len(p_.targets) == 1 and isinstance(p_.targets[0], ast.Name) and all(
+                isinstance(parent(u), ast.Call) and parent(u).func is u for u in ast.walk(g.node)
+                if isinstance(u, ast.Name) and u.id == p_.targets[0].id and isinstance(u.ctx, ast.Load))
+            if not (picks or local):
+                return False
+        called = True
+    return called
+
+
+def _is_real_commit(c: ast.Call) -> bool:
+    return call_name(c) == "commit" and "_connection" in norm(c.func)
+
+
+def _real_commits(frame: _Frame) -> list[tuple[_Frame, ast.Call]]:
+    """connection.commit() calls of Database.commit, also when they moved into a helper of the object that was not inlined"""
+    out = [(frame, c) for c in calls(frame.fi) if _is_real_commit(c)]
+    for c, h in _helper_calls(frame):
+        out += _real_commits(_bind_call(frame, c, h))
+    return out
+
+
+def _success_only_after_commit(ctx: Ctx, frame: _Frame, depth: int = 0) -> tuple[bool | None, ast.AST | None]:
+    """Does the function return a true value only on paths that completed connection.commit()?  (True / False / None = unreadable,
+    the offending or unreadable return).  A returned call of a helper of the same object is answered by the helper's own returns."""
+    cm = frame.fi
+    cfg = ctx.cfg(cm)
+    cn = _nodes_doing(ctx, frame, lambda fr: [c for c in calls(fr.fi) if _is_real_commit(c)])
+    helpers: dict[int, list[FuncInfo]] = {}
+    for c, h in _helper_calls(frame):
+        helpers.setdefault(id(c), []).append(h)
+
+    def value_ok(r_node, v: ast.AST | None) -> bool | None:
+        if v is None:
+            return True
+        k = const_value(v)
+        if isinstance(k, (bool, int, str, bytes, type(None))):
+            return True if not k else bool(cn) and cfg.must_complete(r_node, cn)
+        if cn and cfg.must_complete(r_node, cn):
+            return True
+        v = strip_cast(v)
+        if isinstance(v, ast.Call) and id(v) in helpers and depth < _MAX_FRAMES:
+            verdicts = [_success_only_after_commit(ctx, _bind_call(frame, v, h), depth + 1)[0] for h in helpers[id(v)]]
+            return False if False in verdicts else None if None in verdicts else True
+        if isinstance(v, ast.Name) and v.id not in cm.params():
+            verdict: bool | None = True
+            defs = local_defs(cm, v.id)
+            for st, dv, idx in defs:
+                if dv is None or idx is not None:
+                    return None
+                others = [n for st2, _, _ in defs if st2 is not st for n in cfg.nodes_for(st2)]
+                for dn in cfg.nodes_for(st):
+                    one = value_ok(dn, dv)
+                    if one is True:
+                        continue
+                    # the (possibly) true value survives to the return only along paths that pass the real commit or another assignment
+                    if r_node in cfg.reach([x for x, lab in dn.succ if lab != "exc"], cut_nodes=[*others, *cn]):
+                        verdict = one if verdict is True or one is False else verdict
+            return verdict
+        return None
+    rets = [r for r in walk_no_nested(cm.node) if isinstance(r, ast.Return)]
+    verdicts = [(r, value_ok(n, r.value)) for r in rets for n in cfg.nodes_for(r)]
+    bad = [r for r, v in verdicts if v is False]
+    unread = [r for r, v in verdicts if v is None]
+    if bad:
+        return False, bad[0]
+    if unread:
+        return None, unread[0]
+    return bool(rets), None
+
+
+def _returns_true_only_after(ctx: Ctx, cm: FuncInfo) -> None:
+    """commit() reports success (a true value) only on paths that completed connection.commit()"""
+    verdict, where = _success_only_after_commit(ctx, _top(ctx, cm))
+    if verdict is None:
+        raise AnalysisError(f"undecided: cannot tell whether `{norm(where)}` in Database.commit reports success only after connection.commit()")
+    ctx.check(verdict, "no-deferred-commit", cm, where if where is not None else cm.node,
+              "commit() returns True only after connection.commit()", "commit() reports success without committing")
+
+
 def rule_no_deferred(ctx: Ctx) -> None:
+    _G["repo"] = ctx.repo
     repo = ctx.repo
     dbcls = repo.cls("Database", DB)
     n_with = 0
@@ -231,58 +1234,67 @@ def rule_no_deferred(ctx: Ctx) -> None:
                               "a `with database:` block defers commit(): inserts inside it return before their data is committed")
     ctx.floor("no-deferred-commit.with-statements-scanned", n_with, 20)
     # _pending_commits only in the deferral mechanism
+    allowed = ("Database.__init__", "Database.__enter__", "Database.__exit__", "Database.commit")
     for m, fi, a in repo.attribute_uses("_pending_commits"):
         if isinstance(a.ctx, ast.Store):
-            ctx.check(fi is not None and fi.qualname in ("Database.__init__", "Database.__enter__", "Database.__exit__", "Database.commit"), "no-deferred-commit",
+            ctx.check(fi is not None and (fi.qualname in allowed or _private_part_of(ctx, fi, allowed)), "no-deferred-commit",
                       fi or m.relpath, enclosing_stmt(a), "_pending_commits written only by __init__/__enter__/__exit__/commit", "_pending_commits is set elsewhere: commits can be deferred silently")
     # leaving a `with database:` block always ends the deferral, also when the body raised
     ex_ = repo.method("Database", "__exit__", DB)
     cfge = ctx.cfg(ex_)
-    resets = [n for s_, v in _stored_values(ex_, PENDING) if _is_int(v, ex_) == 0 for n in cfge.nodes_for(s_)]
+    resets = _nodes_doing(ctx, _top(ctx, ex_), lambda fr: [s_ for s_, v in _stored_values(fr.fi, PENDING) if _is_int(v, fr.fi) == 0])
     ok = bool(resets) and cfge.exit not in cfge.reach(cut_nodes=resets, follow_exc=False)
     ctx.check(ok, "no-deferred-commit", ex_, ex_.node, "__exit__ resets _pending_commits to 0 on every path (also when the body raised)",
               "a `with database:` block whose body raises leaves the database in deferred-commit mode: every later insert returns without being committed")
     init = repo.method("Database", "__init__", DB)
-    iv = _stored_values(init, PENDING)
-    ok = bool(iv) and all(_is_int(v, init) == 0 for _, v in iv)
+    iv = [(fr.fi, v) for fr in _all_frames(_top(ctx, init)) for _, v in _stored_values(fr.fi, PENDING)]
+    ok = bool(iv) and all(_is_int(v, g) == 0 for g, v in iv)
     ctx.check(ok, "no-deferred-commit", init, init.node, "_pending_commits starts at 0", "databases start in deferred-commit mode")
     _enter_keeps_pending(ctx)
     cm = repo.method("Database", "commit", DB)
     cfg = ctx.cfg(cm)
-    cc = [c for c in calls(cm) if call_name(c) == "commit" and "_connection" in norm(c.func)]
-    ctx.anchor(cc, "connection.commit() in Database.commit")
-    for c in cc:
-        fs = facts_at(cfg, c)
-        only = [f for f in fs if not _pending_is_zero(f)]
-        ctx.check(any(_pending_is_zero(f) for f in fs) and not only, "no-deferred-commit", cm, c,
+    top = _top(ctx, cm)
+    real = _real_commits(top)
+    ctx.anchor(real, "connection.commit() in Database.commit")
+    for fr, c in real:
+        # the guards of every level of the call chain (commit() itself and the helper the real commit may have moved into)
+        levels = [*fr.chain_calls(), (fr, c)]
+        fs, zero, other, unread = [], False, [], []
+        for lf, lc, f in _level_facts(ctx, fr, c):
+            fs.append(f)
+            if _pending_is_zero(f, lf.fi, ctx.cfg(lf.fi), lc):
+                zero = True
+                continue
+            d = _decision_means_zero(ctx, lf, f)
+            if d is True:
+                zero = True
+            elif d is None:
+                unread.append(f)
+            else:
+                other.append(f)
+        if unread and not other:
+            raise AnalysisError(f"undecided: cannot read the decision `{unread[0]}` that guards connection.commit() in Database.commit")
+        ctx.check(zero and not other, "no-deferred-commit", cm, levels[0][1],
                   "connection.commit() runs whenever no commits are pending", "Database.commit() skips the real commit for another reason than a pending with-block", [str(f) for f in fs])
-    rets = [r for r in walk_no_nested(cm.node) if isinstance(r, ast.Return) and const_value(r.value) is True]
-    cn = [n for c in cc for n in cfg.nodes_for(c)]
-    ctx.check(bool(rets) and all(cfg.must_complete(n, cn) for r in rets for n in cfg.nodes_for(r)), "no-deferred-commit", cm, cm.node,
-              "commit() returns True only after connection.commit()", "commit() reports success without committing")
+        ctx.check(_exc_escapes(ctx.cfg(fr.fi), c) and all(_exc_escapes(ctx.cfg(lf.fi), lc) for lf, lc in levels), "no-deferred-commit", fr.fi, c,
+                  "a failing connection.commit() raises out of Database.commit()",
+                  "Database.commit() catches the exception of a failing connection.commit() and returns normally: no caller looks at the return value, so "
+                  "insert_token/insert_metadata/insert_attestation return although nothing was made durable, and a kill afterwards loses a record whose insert call had returned")
+    _returns_true_only_after(ctx, cm)
     cl = repo.method("Database", "close", DB)
     cfgc = ctx.cfg(cl)
-    cmt = [c for c in calls(cl, "self.commit")]
-    ok = bool(cmt) and all(any(f.op == "truthy" and f.pos and chain(f.left) == "commit" for f in facts_at(cfgc, c)) for c in cmt)
-    clos = [n for c in calls(cl) if call_name(c) == "close" for n in cfgc.nodes_for(c)]
-    ok = ok and all(not any(x in cfgc.reach([v for n in clos for v, lab in n.succ]) for x in cfgc.nodes_for(c)) for c in cmt)
+    topc = _top(ctx, cl)
+    cmt = _calls_through(topc, lambda fr, c: c in _commit_calls(fr))
+    ok = bool(cmt)
+    for fr, c in cmt:
+        ok = ok and any(_flag_fact(ctx, lf, f, "commit", exact=False) for lf, _, f in _level_facts(ctx, fr, c))
+    # nothing that closes the cursor / connection (here or in a helper) can run before the commit
+    clos = _nodes_maybe(ctx, topc, lambda fr, c: call_name(c) == "close" and not _is_self(fr, c.func.value if isinstance(c.func, ast.Attribute) else None))
+    after_close = cfgc.reach([v for n in clos for v, lab in n.succ])
+    ok = ok and all(not any(x in after_close for x in cfgc.nodes_for(fr.chain_calls()[0][1] if fr.caller is not None else c)) for fr, c in cmt)
     d = [a for a in cl.node.args.defaults]
     ok = ok and d and const_value(d[-1]) is True
     ctx.check(ok, "no-deferred-commit", cl, cl.node, "close(commit=True) commits before closing the connection", "close() does not commit before closing")
-
-
-def _eq_const(f, fi: FuncInfo | None = None):
-    """(chain of the non-constant side, constant) of an equality fact / atom, whichever side the constant is on"""
-    if f.op != "eq":
-        return None, None
-    for a, b in ((f.left, f.right), (f.right, f.left)):
-        v = const_value(b)
-        if isinstance(v, str) and not isinstance(const_value(a), str):
-            a = strip_cast(a)
-            if isinstance(a, ast.Name) and fi is not None and isinstance(resolve(fi, a), ast.Attribute):
-                a = resolve(fi, a)          # `path = self._file_path` ... `path == ":memory:"`
-            return (chain(a) or norm(a)), v
-    return None, None
 
 
 def _members(e: ast.AST | None):
@@ -294,59 +1306,360 @@ def _members(e: ast.AST | None):
     return None
 
 
+# ------------------------------------------------------------------------------------------------------------------
+# Journal / synchronous settings: a small abstract interpretation of Database._initial_statements (and the helpers of the
+# same object it calls) over the states (what the database is set to, what the local that mirrors it is known to hold).
+
+_PRAGMA_SET = re.compile(r"\s*PRAGMA\s+(\w+)\s*=\s*(\w+)", re.I)
+_TRACKED = {"journal_mode": "journal", "synchronous": "sync"}
+
+
+def _stmt_texts(frame: _Frame, c: ast.Call) -> list[str] | None:
+    """statement text(s) an execute call runs: one, or one per row when the statement is the loop variable of a literal table"""
+    a = arg(c, 0, "statement")
+    a = a if a is not None else arg(c, 0, "statements")
+    if a is None:
+        return None
+    t = _text(frame, a)
+    if t is not None:
+        return [t]
+    b, fr = _deref(frame, a)
+    rows = _loop_row_values(fr, b)
+    if rows is not None:
+        ts = [_text(fr, r) for r in rows]
+        return None if any(x is None for x in ts) else ts
+    return None
+
+
+def _is_exec(c: ast.Call) -> bool:
+    return call_name(c) in _EXEC and isinstance(c.func, ast.Attribute)
+
+
+def _pragma_sets(frame: _Frame, c: ast.Call) -> list[tuple[str, str]]:
+    out = []
+    for t in _stmt_texts(frame, c) or []:
+        for m in _PRAGMA_SET.finditer(t) if call_name(c) == "executescript" else filter(None, [_PRAGMA_SET.match(t)]):
+            out.append((m.group(1).lower(), m.group(2).upper()))
+    return out
+
+
+def _mentions_query(e: ast.AST | None, key: str) -> bool:
+    """the expression reads the setting from the database (`PRAGMA journal_mode` without `=`)"""
+    if e is None:
+        return False
+    for n in ast.walk(e):
+        if isinstance(n, ast.Constant) and isinstance(n.value, str) and re.search(r"PRAGMA\s+" + key + r"\s*(?!\s*=)\s*$", n.value.strip(), re.I):
+            return True
+        if isinstance(n, ast.Constant) and n.value == key:
+            return True
+    return False
+
+
+def _tracked_kind(frame: _Frame, e: ast.AST) -> str | None:
+    """"journal" / "sync": e is the local that mirrors that setting (recognised by where its value comes from, else by its reviewed name);
+    "file": e is self._file_path"""
+    b, fr = strip_cast(e), frame
+    for _ in range(8):
+        if isinstance(b, ast.Name) and fr.fi is not None:
+            for key, kind in _TRACKED.items():
+                if any(_mentions_query(v, key) for _, v, _ in local_defs(fr.fi, b.id)):
+                    return kind
+        nb, nfr = _deref(fr, b, 1)
+        if nb is b:
+            break
+        b, fr = nb, nfr
+    if isinstance(b, ast.Attribute) and b.attr == "_file_path" and _is_self(fr, b.value):
+        return "file"
+    if isinstance(b, ast.Name):
+        return _TRACKED.get(b.id)
+    return None
+
+
+def _const_set(frame: _Frame, e: ast.AST) -> frozenset | None:
+    v = _ev(frame, e)
+    if isinstance(v, tuple) and all(isinstance(x, (str, int)) for x in v):
+        return frozenset(v)
+    e2, fr = _deref(frame, e)
+    if isinstance(e2, ast.Set):
+        vals = [_ev(fr, x) for x in e2.elts]
+        return frozenset(vals) if all(isinstance(x, (str, int)) for x in vals) else None
+    return None
+
+
+def _fact_test(frame: _Frame, f) -> tuple[str, bool, frozenset] | None:
+    """(kind, member?, values): the fact says that the tracked value is (not) one of the values"""
+    if f.op == "eq":
+        for a, b in ((f.left, f.right), (f.right, f.left)):
+            v = _ev(frame, b)
+            k = _tracked_kind(frame, a)
+            if isinstance(v, (str, int)) and not isinstance(v, bool) and k is not None:
+                return k, f.pos, frozenset([v])
+    if f.op == "in":
+        k = _tracked_kind(frame, f.left)
+        s_ = _const_set(frame, f.right)
+        if k is not None and s_ is not None:
+            return k, f.pos, s_
+    return None
+
+
+def _refine(k, member: bool, vals: frozenset):
+    """knowledge k = None | (True, allowed values) | (False, excluded values) narrowed by a test; "no" when the test cannot hold"""
+    if k is None:
+        return (member, vals)
+    inc, a = k
+    if inc:
+        r = a & vals if member else a - vals
+        return (True, r) if r else "no"
+    if member:
+        r = vals - a
+        return (True, r) if r else "no"
+    return (False, a | vals)
+
+
+class _PragmaWalk:
+    """All normal paths through _initial_statements for a file database, with the conditions on the tracked locals evaluated."""
+
+    def __init__(self, ctx: Ctx, top: _Frame) -> None:
+        self.ctx = ctx
+        self.top = top
+        self.steps = 0
+        self.found: dict = {}                 # pragma statements met on the way: (call, call chain) -> (frame, call, [(key, value)])
+
+    @staticmethod
+    def start() -> dict:
+        st = {"ent": frozenset(), "ret": None, "last": None}
+        for kind in ("journal", "sync"):
+            st[kind] = (None, None, False)          # (database setting, mirror local, local is known to equal the setting)
+        return st
+
+    @staticmethod
+    def key(st: dict):
+        return tuple(sorted(st.items(), key=lambda kv: kv[0]))
+
+    def run(self, frame: _Frame, st0: dict) -> list[dict]:
+        cfg = self.ctx.cfg(frame.fi)
+        seen, outs, okeys = set(), [], set()
+        todo = [(cfg.entry, st0)]
+        while todo:
+            n, st = todo.pop()
+            k = (n.id, self.key(st))
+            if k in seen:
+                continue
+            seen.add(k)
+            self.steps += 1
+            if self.steps > 20000:
+                raise AnalysisError("undecided: too many paths through Database._initial_statements")
+            if n is cfg.exit:
+                if self.key(st) not in okeys:
+                    okeys.add(self.key(st))
+                    outs.append(st)
+                continue
+            for st2 in self.effect(frame, cfg, n, st):
+                for v, lab in n.succ:
+                    if lab == "exc":
+                        continue
+                    st3 = self.edge(frame, n, lab, st2)
+                    if st3 is not None:
+                        todo.append((v, st3))
+        return outs
+
+    # -- what a node does
+    def effect(self, frame: _Frame, cfg, n, st: dict) -> list[dict]:
+        a = n.ast
+        if n.kind not in ("stmt", "cond") or a is None:
+            return [st]
+        if isinstance(a, (ast.With, ast.AsyncWith)):
+            parts = [i.context_expr for i in a.items]
+        elif isinstance(a, (ast.FunctionDef, ast.AsyncFunctionDef, ast.ClassDef)):
+            parts = []
+        else:
+            parts = [a]
+        cs = sorted((c for p_ in parts for c in walk_no_nested(p_) if isinstance(c, ast.Call)),
+                    key=lambda c: (getattr(c, "end_lineno", 0) or 0, getattr(c, "end_col_offset", 0) or 0))
+        states = [dict(st, ret=None)]
+        for c in cs:
+            if _is_exec(c):
+                # a statement text built from a mirrored local is read with the value the local has on this path
+                known = {}
+                for x in ast.walk(c):
+                    if isinstance(x, ast.Name) and x.id not in known:
+                        kd = _tracked_kind(frame, x)
+                        for s_ in states[:1]:
+                            var = s_[kd][1] if kd in ("journal", "sync") else None
+                            if len(states) == 1 and var is not None and var[0] and len(var[1]) == 1:
+                                known[x.id] = next(iter(var[1]))
+                sets = _pragma_sets(frame.with_vals(known) if known else frame, c)
+                self.found.setdefault((id(c), tuple(id(k) for _, k in frame.chain_calls())), (frame, c, sets))
+                for key, val in sets:
+                    kind = _TRACKED.get(key)
+                    if kind is not None:
+                        states = [self.set_db(s_, kind, val, c) for s_ in states]
+                continue
+            h = _self_target(frame, c)
+            if h is None or h.is_async or frame.depth() >= _MAX_FRAMES or not self.relevant(_bind_call(frame, c, h)):
+                continue
+            nxt = []
+            for s_ in states:
+                nxt += self.run(_bind_call(frame, c, h), dict(s_, ret=None))
+            states = nxt
+        if isinstance(a, ast.Return):
+            states = [dict(s_, ret=self.value_of(frame, a.value, s_)) for s_ in states]
+        elif isinstance(a, (ast.Assign, ast.AnnAssign, ast.AugAssign, ast.NamedExpr)) or any(isinstance(x, ast.NamedExpr) for x in walk_no_nested(a)):
+            states = [self.assign(frame, a, s_) for s_ in states]
+        return states
+
+    def relevant(self, frame: _Frame) -> bool:
+        if _calls_through(frame, lambda fr, c: _is_exec(c)):
+            return True
+        return any(isinstance(r, ast.Return) and r.value is not None and (_tracked_kind(frame, r.value) in ("journal", "sync")) for r in walk_no_nested(frame.fi.node))
+
+    @staticmethod
+    def set_db(st: dict, kind: str, val: str, c: ast.Call) -> dict:
+        _, v, _ = st[kind]
+        know = (True, frozenset([val]))
+        return dict(st, **{kind: (know, v, v == know), "last": (kind, val)})
+
+    def value_of(self, frame: _Frame, e: ast.AST | None, st: dict):
+        """("const", c) / ("var", kind) / ("query", kind) / ("self", kind) / None for an assigned or returned value"""
+        if e is None:
+            return None
+        v = _ev(frame, e)
+        if isinstance(v, (str, int)) and not isinstance(v, bool):
+            return ("const", v)
+        k = _tracked_kind(frame, e)
+        if k in ("journal", "sync"):
+            return ("var", k)
+        for key, kind in _TRACKED.items():
+            if _mentions_query(e, key):
+                return ("query", kind)
+        if isinstance(strip_cast(e), ast.Call) and st.get("ret") is not None and _self_target(frame, strip_cast(e)) is not None:
+            return st["ret"]
+        return None
+
+    def assign(self, frame: _Frame, a: ast.AST, st: dict) -> dict:
+        pairs: list[tuple[ast.AST, ast.AST | None]] = []
+        if isinstance(a, ast.Assign):
+            for t in a.targets:
+                if isinstance(t, (ast.Tuple, ast.List)) and isinstance(a.value, (ast.Tuple, ast.List)) and len(t.elts) == len(a.value.elts) \
+                        and not any(isinstance(x, ast.Starred) for x in [*t.elts, *a.value.elts]):
+                    pairs += list(zip(t.elts, a.value.elts))
+                elif isinstance(t, (ast.Tuple, ast.List)):
+                    pairs += [(x, None) for x in t.elts]
+                else:
+                    pairs.append((t, a.value))
+        elif isinstance(a, ast.AnnAssign) and a.value is not None:
+            pairs.append((a.target, a.value))
+        elif isinstance(a, ast.AugAssign):
+            pairs.append((a.target, None))
+        for x in walk_no_nested(a):
+            if isinstance(x, ast.NamedExpr):
+                pairs.append((x.target, x.value))
+        for t, v in pairs:
+            if not isinstance(t, ast.Name) or frame.fi is None:
+                continue
+            kind = None
+            for key, kd in _TRACKED.items():
+                if any(_mentions_query(dv, key) for _, dv, _ in local_defs(frame.fi, t.id)) or t.id == key:
+                    kind = kd
+            if kind is None or t.id in frame.fi.params() and t.id in frame.binds and not local_defs(frame.fi, t.id):
+                continue
+            db, var, same = st[kind]
+            val = self.value_of(frame, v, st) if v is not None else None
+            if val is None:
+                # a value derived from the local itself (bytes -> upper-case text) still mirrors the setting
+                keeps = v is not None and any(isinstance(x, ast.Name) and x.id == t.id for x in ast.walk(v)) and not any(
+                    isinstance(x, ast.Call) and _is_exec(x) for x in ast.walk(v))
+                st = dict(st, **{kind: (db, var, same) if keeps else (db, None, False)})
+            elif val[0] == "const":
+                know = (True, frozenset([val[1]]))
+                st = dict(st, **{kind: (db, know, db == know)})
+            elif val[0] == "query" and val[1] == kind:
+                st = dict(st, **{kind: (db, db, True)})
+            elif val[0] == "var" and val[1] == kind:
+                pass
+            else:
+                st = dict(st, **{kind: (db, None, False)})
+        return dict(st, ret=None)
+
+    # -- which edges can be taken
+    def edge(self, frame: _Frame, n, lab, st: dict) -> dict | None:
+        if n.kind == "loop" and isinstance(n.ast, (ast.For, ast.AsyncFor)):
+            it, _ = _deref(frame, n.ast.iter)
+            if isinstance(it, (ast.Tuple, ast.List)) and it.elts and not any(isinstance(x, (ast.Break, ast.Return)) for x in walk_no_nested(n.ast)):
+                # a loop over a non-empty literal runs its body (once per row: the effects of all rows are applied together)
+                if lab is True:
+                    return None if n.id in st["ent"] else dict(st, ent=st["ent"] | {n.id})
+                if lab is False:
+                    return st if n.id in st["ent"] else None
+            return st
+        if n.kind != "cond" or lab not in (True, False) or n.ast is None:
+            return st
+        t = _fact_test(frame, fact_of(n.ast, lab))
+        if t is None:
+            return st
+        kind, member, vals = t
+        if kind == "file":
+            # only file databases are of interest: the branch taken for ":memory:" is not followed
+            return None if member and ":memory:" in vals else st
+        db, var, same = st[kind]
+        nv = _refine(var, member, vals)
+        if nv == "no":
+            return None
+        nd = db
+        if same:
+            nd = _refine(db, member, vals)
+            if nd == "no":
+                return None
+        return dict(st, **{kind: (nd, nv, same)})
+
+
 def rule_pragmas(ctx: Ctx) -> None:
+    _G["repo"] = ctx.repo
     repo = ctx.repo
     fi = repo.method("Database", "_initial_statements", DB)
-    cfg = ctx.cfg(fi)
+    top = _top(ctx, fi)
+    # every statement executed by _initial_statements (and the helpers of the object it calls) that sets a pragma
+    walk = _PragmaWalk(ctx, top)
+    ends = walk.run(top, walk.start())
+    ctx.anchor(ends, "a normal path through Database._initial_statements for a file database")
     prag = []
-    for c in calls(fi):
-        if call_name(c) in ("execute", "executescript"):
-            s = _sql_of(c, fi)
-            m = re.match(r"\s*PRAGMA\s+(\w+)\s*=\s*(\w+)", s, re.I)
-            if m:
-                prag.append((m.group(1).lower(), m.group(2).upper(), c))
-    jm = [(v, c) for k, v, c in prag if k == "journal_mode"]
-    sy = [(v, c) for k, v, c in prag if k == "synchronous"]
-    ctx.check(sorted(v for v, _ in jm) == ["DELETE", "WAL"], "pragmas", fi, fi.node, "journal_mode is set only to DELETE (temporarily) and WAL", f"journal_mode pragmas: {[v for v, _ in jm]}")
-    ctx.check([v for v, _ in sy] == ["NORMAL"], "pragmas", fi, fi.node, "synchronous is only ever set to NORMAL", f"synchronous pragmas: {[v for v, _ in sy]} (durability weakened)")
-    wal = [c for v, c in jm if v == "WAL"]
-    dele = [c for v, c in jm if v == "DELETE"]
-    if wal:
-        fs = facts_at(cfg, wal[0])
-        # guard: not (journal_mode == "WAL" or file_path == ":memory:")
-        eqs = [(f, *_eq_const(f, fi)) for f in fs]
-        a = any(not f.pos and l == "journal_mode" and v == "WAL" for f, l, v in eqs)
-        b = any(not f.pos and l == "self._file_path" and v == ":memory:" for f, l, v in eqs)
-        extra = [f for f, l, v in eqs if not (not f.pos and (l, v) in (("journal_mode", "WAL"), ("self._file_path", ":memory:")))]
-        ctx.check(a and b and not extra, "pragmas", fi, wal[0], "WAL is switched on exactly when the mode is not WAL and the database is a file",
-                  "the WAL switch depends on another condition: file databases can stay in a rollback-journal mode that was not chosen", [str(f) for f in fs])
-    if dele and wal:
-        # after the temporary DELETE mode the local mode variable is updated so that the WAL branch fires
-        upd = [s for s in walk_no_nested(fi.node) if isinstance(s, ast.Assign) and norm(s.targets[0]) == "journal_mode" and const_value(s.value) == "DELETE"]
-        dn = cfg.nodes_for(dele[0])
-        un = [n for s in upd for n in cfg.nodes_for(s)]
-        ok = bool(un) and all(cfg.always_followed_by(n, un) for n in dn)
-        wn = cfg.nodes_for(wal[0])
-        # after `journal_mode = "DELETE"` (checked: always follows the pragma, no later rebinding) the test
-        # `journal_mode == "WAL"` is false, so its true edge is infeasible on these paths
-        after_upd = cfg.reach([v for n in un for v, lab in n.succ if lab != "exc"])
-        later = [d for d in local_defs(fi, "journal_mode") if d[0] not in upd and any(n in after_upd for n in cfg.nodes_for(d[0]))]
-        ok = ok and not later
+    for fr, c in _calls_through(top, lambda fr, c: _is_exec(c)):
+        sets = _pragma_sets(fr, c)
+        if not sets:
+            # the text may depend on the value a local has on the path (read during the walk)
+            sets = walk.found.get((id(c), tuple(id(k) for _, k in fr.chain_calls())), (None, None, []))[2]
+        for key, val in sets:
+            prag.append((key, val, fr, c))
+    placed = {(k, v) for k, v, _, _ in prag}
+    for g in {fr.fi for fr, _ in _calls_through(top, lambda fr, c: True)} | {fi}:
+        for node in walk_no_nested(g.node):
+            m = _PRAGMA_SET.match(node.value) if isinstance(node, ast.Constant) and isinstance(node.value, str) else None
+            if m and m.group(1).lower() in _TRACKED and (m.group(1).lower(), m.group(2).upper()) not in placed \
+                    and not re.search(r"%s|\(", node.value):
+                raise AnalysisError(f"undecided: cannot see where `{node.value.strip()}` in {g.qualname} is executed")
+    jm = [(v, fr, c) for k, v, fr, c in prag if k == "journal_mode"]
+    sy = [(v, fr, c) for k, v, fr, c in prag if k == "synchronous"]
+    ctx.check(sorted(v for v, _, _ in jm) == ["DELETE", "WAL"], "pragmas", fi, fi.node, "journal_mode is set only to DELETE (temporarily) and WAL", f"journal_mode pragmas: {[v for v, _, _ in jm]}")
+    ctx.check([v for v, _, _ in sy] == ["NORMAL"], "pragmas", fi, fi.node, "synchronous is only ever set to NORMAL", f"synchronous pragmas: {[v for v, _, _ in sy]} (durability weakened)")
 
-        def mem_true(u, v, lab) -> bool:
-            # the edge on which `journal_mode == "WAL"` / `self._file_path == ":memory:"` holds (either spelling of the test)
-            if u.kind != "cond" or lab not in (True, False):
-                return False
-            f = fact_of(u.ast, lab)
-            return f.pos and _eq_const(f, fi) in (("journal_mode", "WAL"), ("self._file_path", ":memory:"))
-        r = cfg.reach([v for n in un for v, lab in n.succ if lab != "exc"], cut_nodes=wn, cut_edge=mem_true, follow_exc=False)
-        ok = ok and cfg.exit not in r
-        ctx.check(ok, "pragmas", fi, dele[0], "the temporary DELETE journal mode is always followed by the switch back to WAL (file databases)",
+    def here(fr: _Frame, c: ast.Call) -> ast.AST:
+        return fr.chain_calls()[0][1] if fr.caller is not None else c
+    wal = [here(fr, c) for v, fr, c in jm if v == "WAL"]
+    dele = [here(fr, c) for v, fr, c in jm if v == "DELETE"]
+    # every normal path of a file database ends in WAL / synchronous NORMAL (conditions on the mirrored locals evaluated per path)
+    bad_j = [st for st in ends if st["journal"][0] != (True, frozenset(["WAL"]))]
+    left_delete = [st for st in bad_j if st["journal"][0] == (True, frozenset(["DELETE"]))]
+    other_j = [st for st in bad_j if st not in left_delete]
+    if wal or other_j:
+        ctx.check(not other_j, "pragmas", fi, wal[0] if wal else fi.node, "WAL is switched on whenever a file database is not in WAL mode",
+                  "the WAL switch depends on another condition: file databases can stay in a rollback-journal mode that was not chosen",
+                  [f"journal mode known at exit: {st['journal'][0]}" for st in other_j])
+    if dele or left_delete:
+        ctx.check(not left_delete, "pragmas", fi, dele[0] if dele else fi.node, "the temporary DELETE journal mode is always followed by the switch back to WAL (file databases)",
                   "after changing the page size a file database can be left in DELETE journal mode")
-    if sy:
-        fs = facts_at(cfg, sy[0][1])
-        ok = any(f.op == "in" and not f.pos and norm(f.left) == "synchronous" and _members(resolve(fi, f.right)) == {"NORMAL", 1} for f in fs) and len(fs) == 1
-        ctx.check(ok, "pragmas", fi, sy[0][1], "synchronous is forced to NORMAL whenever it is anything else", "synchronous can stay at a weaker (OFF) or is forced under an unrelated condition")
+    bad_s = [st for st in ends if not (st["sync"][0] is not None and st["sync"][0][0] and st["sync"][0][1] <= {"NORMAL", 1})]
+    ctx.check(not bad_s, "pragmas", fi, here(sy[0][1], sy[0][2]) if sy else fi.node, "synchronous is forced to NORMAL whenever it is anything else",
+              "synchronous can stay at a weaker (OFF) or is forced under an unrelated condition", [f"synchronous known at exit: {st['sync'][0]}" for st in bad_s])
     # nobody else touches these pragmas
     n = 0
     for m in repo.modules.values():
@@ -354,13 +1667,22 @@ def rule_pragmas(ctx: Ctx) -> None:
             if isinstance(node, ast.Constant) and isinstance(node.value, str) and re.search(r"PRAGMA\s+(journal_mode|synchronous|locking_mode)\s*=", node.value, re.I):
                 f2 = repo.function_of(node)
                 n += 1
-                ctx.check(f2 is not None and f2.qualname == "Database._initial_statements", "pragmas", f2 or m.relpath, node.value.strip(),
+                ctx.check(f2 is not None and (f2.qualname == "Database._initial_statements" or _private_part_of(ctx, f2, ("Database._initial_statements",))),
+                          "pragmas", f2 or m.relpath, node.value.strip(),
                           "journal/synchronous pragmas only in Database._initial_statements", "journal or synchronous settings are changed outside _initial_statements")
     ctx.floor("pragmas", n, 3)
     op = repo.method("Database", "open", DB)
-    cfgo = ctx.cfg(op)
-    isc = [c for c in calls(op, "self._initial_statements")]
-    ok = bool(isc) and all(any(f.op == "truthy" and f.pos and chain(f.left) == "initial_statements" for f in facts_at(cfgo, c)) and len(facts_at(cfgo, c)) == 1 for c in isc)
+    topo = _top(ctx, op)
+    isc = _calls_through(topo, lambda fr, c: _runs_method(fr, c, "_initial_statements"))
+    if not isc and any(fi_ is not None and (fi_ is op or _private_part_of(ctx, fi_, ("Database.open",))) and not (isinstance(parent(a), ast.Call) and parent(a).func is a)
+                       for _, fi_, a in repo.attribute_uses("_initial_statements")):
+        raise AnalysisError("undecided: Database.open() hands self._initial_statements around as a value; cannot tell under which condition it is called")
+    ok = bool(isc)
+    for fr, c in isc:
+        fs = [(lf, f) for lf, _, f in _level_facts(ctx, fr, c)]
+        rows = _row_of_call(fr, c, "_initial_statements")
+        flag = [_flag_fact(ctx, lf, f, "initial_statements", rows) for lf, f in fs]
+        ok = ok and bool(flag) and all(flag)
     defaults = {a.arg: const_value(d) for a, d in zip(op.node.args.args[-len(op.node.args.defaults):], op.node.args.defaults)}
     ok = ok and defaults.get("initial_statements") is True and defaults.get("prepare_visioning") is True
     ctx.check(ok, "pragmas", op, op.node, "open() applies the initial statements by default", "open() does not apply the journal settings by default")
@@ -373,9 +1695,6 @@ def rule_pragmas(ctx: Ctx) -> None:
             ctx.check(ok, "pragmas", f2, c, "identity/attestation databases are opened with default arguments", "a database is opened with the journal settings or versioning switched off")
 
 
-_COLS = re.compile(r"\(([^()]*)\)")
-
-
 def _insert_columns(sql: str) -> list[str]:
     m = re.search(r"INTO\s+[\w{}]+\s*\(([^)]*)\)", sql, re.I)
     return [c.strip() for c in m.group(1).split(",")] if m else []
@@ -386,13 +1705,25 @@ def _select_columns(sql: str) -> list[str]:
     return [c.strip() for c in m.group(1).split(",")] if m else []
 
 
-def _tdt_fields(tdt: FuncInfo) -> list[str] | None:
+def _tdt_fields(tdt: FuncInfo, repo=None) -> list[str] | None:
     """attribute names returned (in order) by to_database_tuple; None when the returns are not one readable tuple"""
     shapes = set()
     for r in walk_no_nested(tdt.node):
         if not isinstance(r, ast.Return):
             continue
         v = resolve(tdt, r.value) if r.value is not None else None
+        if isinstance(v, ast.Call) and chain(v.func) in ("tuple", "list") and len(v.args) == 1 and not v.keywords:
+            v = resolve(tdt, v.args[0])
+        if isinstance(v, (ast.GeneratorExp, ast.ListComp)) and repo is not None:
+            # tuple(getattr(self, name) for name in <constant table of field names>)
+            g = v.generators[0]
+            el = v.elt
+            names = _ev(_Frame(repo, tdt), g.iter) if len(v.generators) == 1 and not g.ifs and isinstance(g.target, ast.Name) else _UNK
+            if isinstance(names, tuple) and all(isinstance(x, str) for x in names) and isinstance(el, ast.Call) and chain(el.func) == "getattr" \
+                    and len(el.args) == 2 and chain(el.args[0]) == "self" and isinstance(el.args[1], ast.Name) and el.args[1].id == g.target.id:
+                shapes.add(tuple(names))
+                continue
+            return None
         if not isinstance(v, (ast.Tuple, ast.List)) or any(isinstance(x, ast.Starred) for x in v.elts):
             return None
         names = []
@@ -403,57 +1734,66 @@ def _tdt_fields(tdt: FuncInfo) -> list[str] | None:
     return list(next(iter(shapes))) if len(shapes) == 1 else None
 
 
-def _is_tdt_call(fi: FuncInfo, e: ast.AST | None) -> bool:
-    e = resolve(fi, e) if e is not None else None
+def _is_tdt_call(frame: _Frame, e: ast.AST | None) -> bool:
+    if e is None:
+        return False
+    e, _ = _deref(frame, e)
     return isinstance(e, ast.Call) and call_name(e) == "to_database_tuple" and not e.args and not e.keywords
 
 
-def _bind_source(fi: FuncInfo, x: ast.AST, depth: int = 0) -> tuple:
+def _bind_source(frame: _Frame, x: ast.AST, depth: int = 0) -> tuple:
     """Where one bound value comes from: ("field", j) = element j of <obj>.to_database_tuple(), ("key", p) = p.key_to_bin()
-    of parameter p, ("other", text) otherwise.  Local names do not matter, only what they were assigned from."""
+    of parameter p of the insert function, ("other", text) otherwise.  Local and helper-parameter names do not matter, only
+    what they were assigned from / bound to."""
     x = strip_cast(x)
-    if isinstance(x, ast.Name) and depth < 6:
-        d = single_def(fi, x.id)
+    if isinstance(x, ast.Name) and depth < 10 and frame.fi is not None:
+        fi = frame.fi
+        if x.id in fi.params():
+            if x.id in frame.binds and not local_defs(fi, x.id):
+                e, fr = frame.binds[x.id]
+                return _bind_source(fr, e, depth + 1)
+            return ("other", norm(x))
+        d = _def_of(frame, x)
         if d is not None:
             v, j = d
             if j is not None:
-                return ("field", j) if _is_tdt_call(fi, v) else ("other", norm(x))
-            return _bind_source(fi, v, depth + 1)
+                return ("field", j) if _is_tdt_call(frame, v) else ("other", norm(x))
+            return _bind_source(frame, v, depth + 1)
         return ("other", norm(x))
-    if isinstance(x, ast.Subscript) and _is_tdt_call(fi, x.value):
-        j = _is_int(x.slice)
-        if j is not None and j >= 0:
+    if isinstance(x, ast.Subscript) and _is_tdt_call(frame, x.value):
+        j = _ev(frame, x.slice)
+        if type(j) is int and j >= 0:
             return ("field", j)
     if isinstance(x, ast.Call) and isinstance(x.func, ast.Attribute) and x.func.attr == "key_to_bin" and not x.args and not x.keywords:
-        base = rchain(fi, x.func.value)
-        if base in fi.params():
-            return ("key", base)
+        base, fr = _deref(frame, x.func.value)
+        if isinstance(base, ast.Name) and fr.caller is None and fr.fi is not None and base.id in fr.fi.params():
+            return ("key", base.id)
     return ("other", norm(x))
 
 
-def _bind_items(fi: FuncInfo, e: ast.AST | None, nfields: int, depth: int = 0) -> list[tuple] | None:
-    """the bindings expression of an execute call as a flat list of sources (tuple / list literal, through a local,
-    `(k,) + t`, `(k, *t)`, tuple(...)); None when it cannot be read"""
-    if e is None or depth > 6:
+def _bind_items(frame: _Frame, e: ast.AST | None, nfields: int, depth: int = 0) -> list[tuple] | None:
+    """the bindings expression of an execute call as a flat list of sources (tuple / list literal, through a local or a
+    helper parameter - also a *rest parameter -, `(k,) + t`, `(k, *t)`, tuple(...)); None when it cannot be read"""
+    if e is None or depth > 10:
         return None
-    e = resolve(fi, e)
+    e, frame = _deref(frame, e)
     if isinstance(e, (ast.Tuple, ast.List)):
         out: list[tuple] = []
         for x in e.elts:
             if isinstance(x, ast.Starred):
-                sub = _bind_items(fi, x.value, nfields, depth + 1)
+                sub = _bind_items(frame, x.value, nfields, depth + 1)
                 if sub is None:
                     return None
                 out += sub
             else:
-                out.append(_bind_source(fi, x))
+                out.append(_bind_source(frame, x))
         return out
     if isinstance(e, ast.BinOp) and isinstance(e.op, ast.Add):
-        l, r = _bind_items(fi, e.left, nfields, depth + 1), _bind_items(fi, e.right, nfields, depth + 1)
+        l, r = _bind_items(frame, e.left, nfields, depth + 1), _bind_items(frame, e.right, nfields, depth + 1)
         return None if l is None or r is None else l + r
     if isinstance(e, ast.Call) and chain(e.func) in ("tuple", "list") and len(e.args) == 1 and not e.keywords:
-        return _bind_items(fi, e.args[0], nfields, depth + 1)
-    if _is_tdt_call(fi, e):
+        return _bind_items(frame, e.args[0], nfields, depth + 1)
+    if _is_tdt_call(frame, e):
         return [("field", j) for j in range(nfields)]
     return None
 
@@ -552,6 +1892,11 @@ def _reload_keeps_every_token(ctx: Ctx, pm: FuncInfo) -> None:
         elif isinstance(st, ast.Expr) and isinstance(st.value, ast.Call) and call_name(st.value) == "update" and isinstance(st.value.func, ast.Attribute) \
                 and rchain(pm, st.value.func.value) == "self.tree.elements" and len(st.value.args) == 1:
             d = resolve(pm, st.value.args[0])
+        if isinstance(d, ast.Call) and chain(d.func) == "dict" and len(d.args) == 1 and not d.keywords:
+            d = resolve(pm, d.args[0])
+        if isinstance(d, (ast.GeneratorExp, ast.ListComp)) and len(d.generators) == 1 and isinstance(d.elt, ast.Tuple) and len(d.elt.elts) == 2:
+            # update((t.get_hash(), t) for t in tokens): the same mapping written as pairs
+            d = ast.DictComp(key=d.elt.elts[0], value=d.elt.elts[1], generators=d.generators)
         if isinstance(d, ast.DictComp) and len(d.generators) == 1 and _is_token_read(pm, d.generators[0].iter):
             n_seen += 1
             g = d.generators[0]
@@ -571,31 +1916,55 @@ def cfg_conditional(ctx: Ctx, fi: FuncInfo, st: ast.AST) -> bool:
     return not ns or cfg.exit in cfg.reach(cut_nodes=ns, follow_exc=False)
 
 
+def _schema_texts(ctx: Ctx, gs: FuncInfo) -> list[str]:
+    """every piece of statement text get_schema can return: the string constants / f-string parts written in it (and in the helpers of the
+    object it calls) and the module / class level constants and tables it refers to"""
+    texts: list[str] = []
+
+    def add_value(v) -> None:
+        if isinstance(v, str):
+            texts.append(v)
+        elif isinstance(v, tuple):
+            for x in v:
+                add_value(x)
+        elif isinstance(v, dict):
+            for x in v.values():
+                add_value(x)
+    top = _top(ctx, gs)
+    frames = [top] + [_bind_call(fr, c, h) for fr in [top] for c, h in _helper_calls(fr)]
+    for fr in frames:
+        for n in ast.walk(fr.fi.node):
+            if isinstance(n, ast.Constant) and isinstance(n.value, str):
+                texts.append(n.value)
+            elif isinstance(n, (ast.Name, ast.Attribute)) and isinstance(getattr(n, "ctx", None), ast.Load):
+                if isinstance(n, ast.Name) and (n.id in fr.fi.params() or local_defs(fr.fi, n.id)):
+                    continue
+                add_value(_ev(fr, n))
+    return texts
+
+
 def rule_schema(ctx: Ctx) -> None:
+    _G["repo"] = ctx.repo
     repo = ctx.repo
     idb = repo.cls("IdentityDatabase", IDB)
     wdb = repo.cls("AttestationsDB", WDB)
     for c in (idb, wdb):
         gs = c.methods["get_schema"]
-        texts = [n.value for n in ast.walk(gs.node) if isinstance(n, ast.Constant) and isinstance(n.value, str) and "CREATE TABLE" in n.value]
-        texts += ["".join(v.value for v in n.values if isinstance(v, ast.Constant)) for n in ast.walk(gs.node) if isinstance(n, ast.JoinedStr)]
+        texts = _schema_texts(ctx, gs)
         creates = re.findall(r"CREATE\s+TABLE\s+(IF\s+NOT\s+EXISTS\s+)?", " ".join(texts), re.I)
         ctx.check(bool(creates) and all(x for x in creates), "schema-reopen", gs, gs.node, f"{c.name}: every CREATE TABLE is IF NOT EXISTS",
                   f"{c.name}: reopening an existing database fails or recreates tables (CREATE TABLE without IF NOT EXISTS)")
         ctx.check(not re.search(r"DROP\s+TABLE|DELETE\s+FROM\s+(?!option)", " ".join(texts), re.I), "schema-reopen", gs, gs.node, f"{c.name}: schema never drops data",
                   f"{c.name}: the schema script deletes stored records on open")
         cd = c.methods["check_database"]
-        cfg = ctx.cfg(cd)
-        cm = [n for k in calls(cd, "self.commit") for n in cfg.nodes_for(k)]
-        es = [n for k in calls(cd, "self.executescript") for n in cfg.nodes_for(k)]
-        ok = bool(cm) and bool(es) and all(cfg.always_followed_by(n, cm) for n in es)
+        scripts = [x for x in _sql_sites(_top(ctx, cd)) if call_name(x.call) == "executescript"]
+        ok = bool(scripts) and all(_committed_before_return(ctx, x) for x in scripts)
         ctx.check(ok, "schema-reopen", cd, cd.node, f"{c.name}.check_database commits the schema", f"{c.name}.check_database leaves the schema uncommitted")
     # keyed tables: INSERT OR IGNORE
     for fi in insert_functions(ctx):
         if fi.cls is idb:
-            for e in [c for c in calls(fi) if (chain(c.func) or "").startswith("self.") and c.args and re.match(r"\s*INSERT", _sql_of(c, fi), re.I)]:
-                s = _sql_of(e, fi)
-                ctx.check(bool(re.match(r"\s*INSERT\s+OR\s+IGNORE", s, re.I)), "schema-reopen", fi, e, f"{fi.name}: INSERT OR IGNORE on a keyed table",
+            for s_ in [x for x in _sql_sites(_top(ctx, fi)) if re.match(r"\s*INSERT", x.sql, re.I)]:
+                ctx.check(bool(re.match(r"\s*INSERT\s+OR\s+IGNORE", s_.sql, re.I)), "schema-reopen", fi, s_.levels()[0][1], f"{fi.name}: INSERT OR IGNORE on a keyed table",
                           f"{fi.name}: a duplicate insert raises IntegrityError (and the following commit is skipped)")
     # column agreement: to_database_tuple -> INSERT columns; SELECT columns -> from_database_tuple
     pairs = [("insert_token", "Token", "ipv8/attestation/tokentree/token.py", "get_tokens_for"),
@@ -606,18 +1975,26 @@ def rule_schema(ctx: Ctx) -> None:
         obj = repo.cls(cls, rel)
         tdt = obj.methods["to_database_tuple"]
         fdt = obj.methods["from_database_tuple"]
-        fields = _tdt_fields(tdt)
+        fields = _tdt_fields(tdt, repo)
         if fields is None:
             raise AnalysisError(f"undecided: {tdt.qualname} does not return one tuple of fields")
-        writes = [c for c in calls(fi) if (chain(c.func) or "").startswith("self.") and (c.args or c.keywords) and re.match(r"\s*INSERT", _sql_of(c, fi), re.I)]
+        sites = _sql_sites(_top(ctx, fi))
+        writes = [x for x in sites if re.match(r"\s*INSERT", x.sql, re.I)]
         if not writes:
+            if any(x.text is None for x in sites):
+                raise AnalysisError(f"undecided: cannot read the statement that {fi.qualname} executes")
             ctx.check(False, "schema-reopen", fi, fi.node, f"{ins} issues an INSERT statement", f"{ins} has no recognisable INSERT statement")
             continue
-        for e in writes:
-            cols = _insert_columns(_sql_of(e, fi))
-            items = _bind_items(fi, arg(e, 1, "bindings"), len(fields))
+        for s_ in writes:
+            e = s_.levels()[0][1]
+            cols = _insert_columns(s_.sql)
+            b = s_.bindings_arg()
+            if b is not None and call_name(s_.call) == "executemany":
+                seq, sfr = _deref(b[1], b[0])          # one row written through executemany([row])
+                b = (seq.elts[0], sfr) if isinstance(seq, (ast.Tuple, ast.List)) and len(seq.elts) == 1 and not isinstance(seq.elts[0], ast.Starred) else None
+            items = _bind_items(b[1], b[0], len(fields)) if b is not None else None
             if items is None:
-                raise AnalysisError(f"undecided: cannot read the bindings of the INSERT in {fi.qualname}: `{norm(e)[:120]}`")
+                raise AnalysisError(f"undecided: cannot read the bindings of the INSERT in {fi.qualname}: `{norm(s_.call)[:120]}`")
             # every column gets the value that belongs to it: a to_database_tuple field goes to the column of the same name
             # (whatever the local is called, wherever the column stands), a key column gets that key parameter's key_to_bin()
             want = [("field", fields.index(c)) if c in fields else ("key", c) for c in cols]
@@ -626,10 +2003,10 @@ def rule_schema(ctx: Ctx) -> None:
             ctx.check(ok, "schema-reopen", fi, e, f"{ins}: to_database_tuple fields {fields} are bound to the same-named columns",
                       f"{ins}: column list {cols} / bindings {shown} do not match to_database_tuple {fields}: a reloaded record differs from the stored object")
         g = idb.methods[getter]
-        reads = [c for c in calls(g) if (chain(c.func) or "").startswith("self.") and re.match(r"\s*SELECT", _sql_of(c, g), re.I)]
+        reads = [x for x in _sql_sites(_top(ctx, g), generators=True) if re.match(r"\s*SELECT", x.sql, re.I)]
         if not reads:
             raise AnalysisError(f"undecided: no SELECT statement recognised in {g.qualname}")
-        sql = _sql_of(reads[0], g)
+        sql = reads[0].sql
         sel = _select_columns(sql)
         params = [p for p in fdt.params() if p != "cls"]
         ok = sel == params
@@ -639,18 +2016,86 @@ def rule_schema(ctx: Ctx) -> None:
         ctx.check(where is not None and where.group(1) == "public_key", "schema-reopen", g, g.node, f"{getter} selects by public_key", f"{getter} does not select by owner key")
     # a record is written after the records it points to: token before its metadata, metadata before attestations over it
     ac = repo.method("PseudonymManager", "add_credential", "ipv8/attestation/identity/manager.py")
-    cfga = ctx.cfg(ac)
-    tok = [n for c in calls(ac) if call_name(c) == "insert_token" for n in cfga.nodes_for(c)]
-    md = [c for c in calls(ac) if call_name(c) == "insert_metadata"]
-    ok = bool(tok) and bool(md) and all(cfga.must_complete(n, tok) for c in md for n in cfga.nodes_for(c))
-    ctx.check(ok, "schema-reopen", ac, md[0] if md else ac.node, "add_credential commits the token before the metadata that points to it",
+    topa = _top(ctx, ac)
+    md = _calls_through(topa, lambda fr, c: call_name(c) == "insert_metadata")
+    ok = bool(md)
+    for fr, c in md:
+        # at some level of the call chain the token insert has completed on every path that reaches the metadata insert
+        ok = ok and any(bool(tn) and all(ctx.cfg(lf.fi).must_complete(n, tn) for n in ctx.cfg(lf.fi).nodes_for(lc))
+                        for lf, lc in [*fr.chain_calls(), (fr, c)]
+                        for tn in [_nodes_doing(ctx, lf, lambda f2: [k for k in calls(f2.fi) if call_name(k) == "insert_token"])])
+    first = md[0] if md else None
+    ctx.check(ok, "schema-reopen", ac, (first[0].chain_calls()[0][1] if first[0].caller is not None else first[1]) if first else ac.node,
+              "add_credential commits the token before the metadata that points to it",
               "the metadata row is committed before the token it points to: a kill between the two commits leaves a credential whose token is missing after reopen")
     # reload path reads the same tables the inserts write
     pm = repo.method("PseudonymManager", "__init__", "ipv8/attestation/identity/manager.py")
-    ok = any(call_name(c) == "get_tokens_for" for c in calls(pm)) and any(call_name(c) == "get_credentials_for" for c in calls(pm))
+    frames = _all_frames(_top(ctx, pm))          # __init__ and the helpers of the object it calls
+    readers = [fr for fr in frames if any(call_name(c) == "get_tokens_for" for c in calls(fr.fi))]
+    ok = bool(readers) and any(call_name(c) == "get_credentials_for" for fr in frames for c in calls(fr.fi))
     ctx.check(ok, "schema-reopen", pm, pm.node, "pseudonym reload reads tokens and credentials back from the database", "the pseudonym is not rebuilt from the stored tokens/credentials")
     if ok:
-        _reload_keeps_every_token(ctx, pm)
+        for fr in readers:
+            skipped = [lc for lf, lc in fr.chain_calls() if cfg_conditional(ctx, lf.fi, lc)]
+            if skipped:
+                ctx.check(False, "schema-reopen", pm, skipped[0], "pseudonym reload puts every stored token into tree.elements (no filter, no bounded intake buffer)",
+                          "PseudonymManager.__init__ reloads the stored tokens only under a condition: stored records are missing from the rebuilt pseudonym")
+            _reload_keeps_every_token(ctx, fr.fi)
+
+
+_FILE_REMOVERS = {"os.remove", "os.unlink", "os.rename", "os.renames", "os.replace", "os.truncate", "os.rmdir", "os.removedirs",
+                  "shutil.rmtree", "shutil.move", "shutil.copyfile", "shutil.copy", "shutil.copy2"}
+_REMOVER_METHODS = {"unlink", "rmtree", "truncate", "rmdir"}
+
+
+def _qualified_callee(m, c: ast.Call) -> str:
+    """dotted name of the called library function with import aliases undone (`from os import remove as rm; rm(p)` -> os.remove)"""
+    ch = chain(c.func) or ""
+    first, _, rest = ch.partition(".")
+    imp = m.imports.get(first)
+    if imp is not None:
+        mod, attr = imp
+        base = mod if attr is None else f"{mod}.{attr}"
+        return base + ("." + rest if rest else "")
+    return ch
+
+
+def rule_files_kept(ctx: Ctx) -> None:
+    """
+    The records a crash must not lose live in the database file AND its side files: in WAL mode every committed insert sits only in
+    `<db>-wal` until a checkpoint (1000 pages or a clean close), a rollback journal `<db>-journal` is what makes a half-written
+    transaction invisible.  After a kill these files are exactly what SQLite needs on reopen, so the database layer must never
+    delete, rename, truncate or overwrite files: code that "cleans up stale -wal/-shm/-journal files" before connecting throws away
+    every committed record since the last checkpoint (the database opens fine, but empty).
+    """
+    _G["repo"] = ctx.repo
+    repo = ctx.repo
+    scoped = []
+    for m in repo.modules.values():
+        for fi in m.all_functions:
+            if m.relpath in (DB, IDB, WDB) or (fi.cls is not None and fi.cls.is_subclass_of("Database")):
+                scoped.append(fi)
+    ctx.floor("storage-files-kept", len(scoped), 40)
+    by_mod: dict[str, list] = {}
+    for fi in scoped:
+        bad = by_mod.setdefault(fi.module.relpath, [])
+        for c in calls(fi):
+            q = _qualified_callee(fi.module, c)
+            mode = arg(c, 1, "mode") if q in ("open", "io.open") else None
+            mv = const_value(resolve(fi, mode)) if mode is not None else None
+            if q in _FILE_REMOVERS or (isinstance(c.func, ast.Attribute) and c.func.attr in _REMOVER_METHODS) \
+                    or (isinstance(mv, str) and ("w" in mv or "+" in mv or "a" in mv or "x" in mv)):
+                bad.append((fi, c, q))
+    for rel in (DB, IDB, WDB):
+        by_mod.setdefault(rel, [])
+    for rel, bad in sorted(by_mod.items()):
+        if not bad:
+            ctx.check(True, "storage-files-kept", rel, None, f"{rel}: the database layer never deletes, renames, truncates or overwrites files")
+        for fi, c, q in bad:
+            ctx.check(False, "storage-files-kept", fi, c, f"{fi.qualname} leaves the files of the database alone",
+                      f"{fi.qualname} calls `{q or norm(c.func)}`: the database layer removes / replaces files. In WAL mode every committed insert lives only in the "
+                      "`-wal` side file until a checkpoint and a rollback journal is what hides a half-written transaction, so after a kill these files are what "
+                      "SQLite needs on reopen - deleting them loses every record committed since the last checkpoint although its insert call had returned")
 
 
 def run(ctx: Ctx) -> None:
@@ -658,11 +2103,21 @@ def run(ctx: Ctx) -> None:
     rule_no_deferred(ctx)
     rule_pragmas(ctx)
     rule_schema(ctx)
+    rule_files_kept(ctx)
     ctx.assume("SQLite's atomic commit in WAL mode with synchronous=NORMAL: a committed transaction survives a process kill; partial transactions are rolled back on reopen (trusted)")
     ctx.assume("power loss (as opposed to process kill) may lose the last WAL commits with synchronous=NORMAL; the property speaks of process kills")
 
 
 WITNESSES = [
+    {"name": "stale side files removed before connecting", "file": DB, "rule": "storage-files-kept",
+     "old": "        self._connect()\n        if initial_statements:",
+     "new": "        if os.path.isfile(self._file_path + \"-wal\"):\n            os.remove(self._file_path + \"-wal\")\n        self._connect()\n        if initial_statements:"},
+    {"name": "failing commit swallowed by Database.commit", "file": DB, "rule": "no-deferred-commit",
+     "old": "        cast(\"Connection\", self._connection).commit()\n        return True",
+     "new": "        try:\n            cast(\"Connection\", self._connection).commit()\n        except Exception:\n            return False\n        return True"},
+    {"name": "failing commit swallowed by insert_metadata", "file": IDB, "rule": "commit-after-insert",
+     "old": "(public_key.key_to_bin(), token_pointer, signature, serialized_json_dict))\n        self.commit()",
+     "new": "(public_key.key_to_bin(), token_pointer, signature, serialized_json_dict))\n        try:\n            self.commit()\n        except Exception:\n            pass"},
     {"name": "insert_token returns before commit on duplicate", "file": IDB, "rule": "commit-after-insert",
      "old": "                     (public_key.key_to_bin(), previous_token_hash, signature, content_hash, content))\n        self.commit()",
      "new": "                     (public_key.key_to_bin(), previous_token_hash, signature, content_hash, content))\n        if content is not None:\n            self.commit()"},
